@@ -1,13 +1,3050 @@
-//! C17 — (stub; to be implemented, see DESIGN.md section 5 and HARNESS.md)
+//! C17 — synonymous attribute spellings are equivalent; unknown / duplicated / meaningless / legacy /
+//! contradictory arguments are rejected with a diagnostic, never silently ignored.
+//!
+//! Engine E1 (in-process): per attribute-taking derive a grammar model of its *documented* attribute
+//! language per position (each production cites impl/doc/*.md), a generator of well-formed attributed
+//! items, rewrites that must be token-equal after normalisation and single-step corruptions that must be
+//! rejected (`Outcome::Err` or a deliberate panic). A sample of every (derive, position, kind) cell goes
+//! through the real proc-macro (engine E2) to cover helper-attribute registration in impl/src/lib.rs.
 use super::core::*;
-use serde_json::Value;
+use super::dm::{self, Derive, Outcome};
+use super::proggen::{build_and_run, CaseSrc, ProgSpec};
+use super::progprop::Dice;
+use super::tok;
+use proptest::strategy::ValueTree;
+use rayon::prelude::*;
+use serde_json::{json, Value};
+use std::collections::{BTreeMap, HashSet};
 
-pub fn run(_ctx: &Ctx) -> Report {
-    let mut rep = Report::new("stub");
-    rep.infra_errors.push("C17 not implemented yet".into());
+pub const RULE: &str = "for every attribute-taking derive (34) and every position its documentation names (struct / enum / union / variant / field): well-formed attributed items from a per-family grammar model; rewrites (skip<->ignore, bound<->bounds, one attribute with n types <-> n attributes, trailing comma in list positions, permutation of the attributes of one item) must expand Ok and token-equal after sorting top-level items; single-step corruptions (unknown identifier where the grammar cannot read it as a type/expression, duplicated literal / rename_all / repr / try_from(repr), argument meaningless for the item kind, legacy `fmt =` / `bound =` / `types(..)`, contradictions `X`+`not(X)` and `skip`/`ignore`+selector) of an item whose uncorrupted form expands Ok must yield Err or a deliberate panic; a sample of every cell is compiled with the real proc-macro (positive: both spellings compile and a derive-specific probe prints the same; negative: rustc reports a derive diagnostic). Non-trivial = every case (each is a rewrite or a corruption); distinct by (derive, base item, variant item); every (derive, position, kind) cell must reach >= 5 distinct cases";
+
+// ------------------------------------------------------------------------------------------------
+// model of attributed items
+
+#[derive(Clone, Debug, PartialEq)]
+enum Arg {
+    /// `skip`, `forward`, `owned`, `source`, `repr`
+    Flag(String),
+    /// `head(inner, ..)` with optional trailing comma inside: `bound(T: X)`, `not(source)`, `ref(i32)`
+    Call(String, Vec<String>, bool),
+    /// format literal (token text incl. quotes)
+    Lit(String),
+    /// format argument expression
+    Expr(String),
+    /// a type of a type list
+    Ty(String),
+    /// `rename_all = "snake_case"`
+    NameValue(String, String),
+    /// anything else (corruptions)
+    Raw(String),
+}
+
+impl Arg {
+    fn render(&self) -> String {
+        match self {
+            Arg::Flag(s) | Arg::Lit(s) | Arg::Expr(s) | Arg::Ty(s) | Arg::Raw(s) => s.clone(),
+            Arg::Call(h, inner, tr) => format!("{h}({}{})", inner.join(", "), if *tr && !inner.is_empty() { "," } else { "" }),
+            Arg::NameValue(k, v) => format!("{k} = {v}"),
+        }
+    }
+    fn flag(s: &str) -> Arg {
+        Arg::Flag(s.to_string())
+    }
+    fn call(h: &str, inner: &[&str]) -> Arg {
+        Arg::Call(h.to_string(), inner.iter().map(|s| s.to_string()).collect(), false)
+    }
+    fn is_flag(&self, s: &str) -> bool {
+        matches!(self, Arg::Flag(x) if x == s)
+    }
+}
+
+#[derive(Clone, Debug, PartialEq)]
+struct Attr {
+    name: String,
+    /// `None` = bare `#[name]`
+    args: Option<Vec<Arg>>,
+    /// trailing comma after the last top-level argument
+    trailing: bool,
+}
+
+impl Attr {
+    fn bare(name: &str) -> Attr {
+        Attr { name: name.to_string(), args: None, trailing: false }
+    }
+    fn with(name: &str, args: Vec<Arg>) -> Attr {
+        Attr { name: name.to_string(), args: Some(args), trailing: false }
+    }
+    fn raw(name: &str, body: &str) -> Attr {
+        Attr::with(name, vec![Arg::Raw(body.to_string())])
+    }
+    fn render(&self) -> String {
+        match &self.args {
+            None => format!("#[{}]", self.name),
+            Some(a) => format!(
+                "#[{}({}{})]",
+                self.name,
+                a.iter().map(|x| x.render()).collect::<Vec<_>>().join(", "),
+                if self.trailing && !a.is_empty() { "," } else { "" }
+            ),
+        }
+    }
+    fn args(&self) -> &[Arg] {
+        self.args.as_deref().unwrap_or(&[])
+    }
+    fn has_lit(&self) -> bool {
+        self.args().iter().any(|a| matches!(a, Arg::Lit(_)))
+    }
+    fn has_call(&self, heads: &[&str]) -> bool {
+        self.args().iter().any(|a| matches!(a, Arg::Call(h, _, _) if heads.contains(&h.as_str())))
+    }
+    fn has_flag(&self, s: &str) -> bool {
+        self.args().iter().any(|a| a.is_flag(s))
+    }
+}
+
+#[derive(Clone, Debug)]
+struct Field {
+    attrs: Vec<Attr>,
+    name: Option<String>,
+    ty: String,
+    /// value expression of the (instantiated) field type, for the E2 probes
+    val: String,
+}
+
+#[derive(Clone, Copy, Debug, PartialEq, Eq)]
+enum Shape {
+    Unit,
+    Tuple,
+    Named,
+}
+
+#[derive(Clone, Debug)]
+struct Variant {
+    attrs: Vec<Attr>,
+    name: String,
+    snake: String,
+    shape: Shape,
+    fields: Vec<Field>,
+    discr: Option<String>,
+}
+
+#[derive(Clone, Debug)]
+enum Body {
+    Struct(Shape, Vec<Field>),
+    Enum(Vec<Variant>),
+    Union(Vec<Field>),
+}
+
+#[derive(Clone, Debug)]
+struct Item {
+    attrs: Vec<Attr>,
+    name: String,
+    /// generic parameter declaration, "" or "<T>"
+    generics: String,
+    body: Body,
+}
+
+#[derive(Clone, Copy, Debug, PartialEq, Eq)]
+enum Loc {
+    Container,
+    Variant(usize),
+    /// field of a struct / union
+    Field(usize),
+    /// field of a variant
+    VField(usize, usize),
+}
+
+fn render_attrs(a: &[Attr], sep: &str) -> String {
+    a.iter().map(|x| format!("{}{sep}", x.render())).collect()
+}
+
+fn render_fields(shape: Shape, fields: &[Field]) -> String {
+    match shape {
+        Shape::Unit => String::new(),
+        Shape::Tuple => format!("({})", fields.iter().map(|f| format!("{}{}", render_attrs(&f.attrs, " "), f.ty)).collect::<Vec<_>>().join(", ")),
+        Shape::Named => format!(
+            " {{ {} }}",
+            fields.iter().map(|f| format!("{}{}: {}", render_attrs(&f.attrs, " "), f.name.as_deref().unwrap_or("x"), f.ty)).collect::<Vec<_>>().join(", ")
+        ),
+    }
+}
+
+impl Item {
+    fn render(&self) -> String {
+        let a = render_attrs(&self.attrs, "\n");
+        match &self.body {
+            Body::Struct(shape, fields) => {
+                let f = render_fields(*shape, fields);
+                let semi = if *shape == Shape::Named { "" } else { ";" };
+                format!("{a}pub struct {}{}{f}{semi}", self.name, self.generics)
+            }
+            Body::Enum(vs) => {
+                let body = vs
+                    .iter()
+                    .map(|v| {
+                        format!(
+                            "{}{}{}{}",
+                            render_attrs(&v.attrs, " "),
+                            v.name,
+                            render_fields(v.shape, &v.fields),
+                            v.discr.as_ref().map(|d| format!(" = {d}")).unwrap_or_default()
+                        )
+                    })
+                    .collect::<Vec<_>>()
+                    .join(", ");
+                format!("{a}pub enum {}{} {{ {body} }}", self.name, self.generics)
+            }
+            Body::Union(fields) => format!("{a}pub union {}{}{}", self.name, self.generics, render_fields(Shape::Named, fields)),
+        }
+    }
+    fn attrs_at(&mut self, loc: Loc) -> Option<&mut Vec<Attr>> {
+        match (loc, &mut self.body) {
+            (Loc::Container, _) => Some(&mut self.attrs),
+            (Loc::Variant(i), Body::Enum(vs)) => vs.get_mut(i).map(|v| &mut v.attrs),
+            (Loc::Field(i), Body::Struct(_, fs)) | (Loc::Field(i), Body::Union(fs)) => fs.get_mut(i).map(|f| &mut f.attrs),
+            (Loc::VField(vi, fi), Body::Enum(vs)) => vs.get_mut(vi).and_then(|v| v.fields.get_mut(fi)).map(|f| &mut f.attrs),
+            _ => None,
+        }
+    }
+    fn attrs_ref(&self, loc: Loc) -> &[Attr] {
+        match (loc, &self.body) {
+            (Loc::Container, _) => &self.attrs,
+            (Loc::Variant(i), Body::Enum(vs)) => vs.get(i).map(|v| v.attrs.as_slice()).unwrap_or(&[]),
+            (Loc::Field(i), Body::Struct(_, fs)) | (Loc::Field(i), Body::Union(fs)) => fs.get(i).map(|f| f.attrs.as_slice()).unwrap_or(&[]),
+            (Loc::VField(vi, fi), Body::Enum(vs)) => vs.get(vi).and_then(|v| v.fields.get(fi)).map(|f| f.attrs.as_slice()).unwrap_or(&[]),
+            _ => &[],
+        }
+    }
+    /// value expressions: one for a struct / union, one per variant for an enum (`inst`: the type the
+    /// generic parameter `T` is instantiated with, "" for non-generic items)
+    fn values(&self, inst: &str) -> Vec<String> {
+        let me = if inst.is_empty() { self.name.clone() } else { format!("{}::<{inst}>", self.name) };
+        let build = |path: &str, shape: Shape, fields: &[Field]| match shape {
+            Shape::Unit => path.to_string(),
+            Shape::Tuple => format!("{path}({})", fields.iter().map(|f| f.val.clone()).collect::<Vec<_>>().join(", ")),
+            Shape::Named => format!("{path} {{ {} }}", fields.iter().map(|f| format!("{}: {}", f.name.as_deref().unwrap_or("x"), f.val)).collect::<Vec<_>>().join(", ")),
+        };
+        match &self.body {
+            Body::Struct(shape, fields) => vec![build(&me, *shape, fields)],
+            Body::Enum(vs) => vs.iter().map(|v| build(&format!("{me}::{}", v.name), v.shape, &v.fields)).collect(),
+            Body::Union(fields) => vec![format!("{me} {{ {}: {} }}", fields[0].name.as_deref().unwrap_or("a"), fields[0].val)],
+        }
+    }
+}
+
+fn lit_tok(s: &str) -> String {
+    proc_macro2::Literal::string(s).to_string()
+}
+
+/// value expression for a type of the generators' vocabulary
+fn val_of(ty: &str) -> String {
+    let t = ty.trim();
+    if t.starts_with('(') && t.ends_with(')') {
+        // tuple: split at top-level commas
+        let inner = &t[1..t.len() - 1];
+        let mut parts = vec![];
+        let (mut depth, mut cur) = (0i32, String::new());
+        for c in inner.chars() {
+            match c {
+                '<' | '(' | '[' => depth += 1,
+                '>' | ')' | ']' => depth -= 1,
+                _ => {}
+            }
+            if c == ',' && depth == 0 {
+                parts.push(cur.trim().to_string());
+                cur.clear();
+            } else {
+                cur.push(c);
+            }
+        }
+        if !cur.trim().is_empty() {
+            parts.push(cur.trim().to_string());
+        }
+        return format!("({})", parts.iter().map(|p| val_of(p)).collect::<Vec<_>>().join(", "));
+    }
+    match t {
+        "i8" | "i16" | "i32" | "i64" | "i128" | "u8" | "u16" | "u32" | "u64" | "usize" | "isize" => format!("12{t}"),
+        "f32" | "f64" => format!("1.5{t}"),
+        "bool" => "true".into(),
+        "char" => "'c'".into(),
+        "&'static str" => "\"s\"".into(),
+        "String" => "String::from(\"s\")".into(),
+        "Box<str>" => "Box::<str>::from(\"s\")".into(),
+        "std::path::PathBuf" => "std::path::PathBuf::from(\"s\")".into(),
+        "Vec<i32>" => "vec![3i32, 4]".into(),
+        "Box<i32>" => "Box::new(5i32)".into(),
+        "Box<i64>" => "Box::new(5i64)".into(),
+        "&'static i32" => "&P".into(),
+        "Inner" => "Inner".into(),
+        other => format!("<{other} as Default>::default()"),
+    }
+}
+
+// ------------------------------------------------------------------------------------------------
+// families, positions, kinds, cells
+
+#[derive(Clone, Copy, Debug, PartialEq, Eq)]
+enum Fam {
+    Display,
+    Debug,
+    From,
+    Into,
+    AsRef,
+    TryFrom,
+    Error,
+    Deref,
+    Index,
+    IntoIter,
+    IsVariant,
+    Unwrap,
+    TryInto,
+    Mul,
+}
+
+fn fam_of(derive: &str) -> Option<Fam> {
+    Some(match derive {
+        "Display" | "Binary" | "Octal" | "LowerHex" | "UpperHex" | "LowerExp" | "UpperExp" | "Pointer" => Fam::Display,
+        "Debug" => Fam::Debug,
+        "From" => Fam::From,
+        "Into" => Fam::Into,
+        "AsRef" | "AsMut" => Fam::AsRef,
+        "TryFrom" => Fam::TryFrom,
+        "Error" => Fam::Error,
+        "Deref" | "DerefMut" => Fam::Deref,
+        "Index" | "IndexMut" => Fam::Index,
+        "IntoIterator" => Fam::IntoIter,
+        "IsVariant" => Fam::IsVariant,
+        "Unwrap" | "TryUnwrap" => Fam::Unwrap,
+        "TryInto" => Fam::TryInto,
+        "Mul" | "Div" | "Rem" | "Shr" | "Shl" | "MulAssign" | "DivAssign" | "RemAssign" | "ShrAssign" | "ShlAssign" => Fam::Mul,
+        _ => return None,
+    })
+}
+
+/// families whose attributes go through the legacy `State`/`MetaInfo` parser of impl/src/utils.rs
+fn is_legacy(f: Fam) -> bool {
+    matches!(f, Fam::Error | Fam::Deref | Fam::Index | Fam::IntoIter | Fam::IsVariant | Fam::Unwrap | Fam::TryInto | Fam::Mul)
+}
+
+#[derive(Clone, Copy, Debug, PartialEq, Eq, PartialOrd, Ord)]
+enum Pos {
+    Struct,
+    Enum,
+    Union,
+    Variant,
+    Field,
+}
+
+impl Pos {
+    fn name(self) -> &'static str {
+        match self {
+            Pos::Struct => "struct",
+            Pos::Enum => "enum",
+            Pos::Union => "union",
+            Pos::Variant => "variant",
+            Pos::Field => "field",
+        }
+    }
+}
+
+#[derive(Clone, Copy, Debug, PartialEq, Eq, PartialOrd, Ord)]
+enum Kind {
+    RwSkip,
+    RwBound,
+    RwNTypes,
+    RwTrail,
+    RwPerm,
+    CoUnknown,
+    CoDupLit,
+    CoDupRename,
+    CoDupTryFrom,
+    CoDupRepr,
+    CoKind,
+    CoLegacyFmt,
+    CoLegacyBound,
+    CoLegacyTypes,
+    CoContra,
+}
+
+impl Kind {
+    fn name(self) -> &'static str {
+        match self {
+            Kind::RwSkip => "rw:skip-ignore",
+            Kind::RwBound => "rw:bound-bounds",
+            Kind::RwNTypes => "rw:n-types",
+            Kind::RwTrail => "rw:trailing-comma",
+            Kind::RwPerm => "rw:permutation",
+            Kind::CoUnknown => "co:unknown",
+            Kind::CoDupLit => "co:dup-literal",
+            Kind::CoDupRename => "co:dup-rename_all",
+            Kind::CoDupTryFrom => "co:dup-try_from-repr",
+            Kind::CoDupRepr => "co:dup-repr",
+            Kind::CoKind => "co:item-kind",
+            Kind::CoLegacyFmt => "co:legacy-fmt",
+            Kind::CoLegacyBound => "co:legacy-bound",
+            Kind::CoLegacyTypes => "co:legacy-types",
+            Kind::CoContra => "co:contradiction",
+        }
+    }
+    fn is_rewrite(self) -> bool {
+        matches!(self, Kind::RwSkip | Kind::RwBound | Kind::RwNTypes | Kind::RwTrail | Kind::RwPerm)
+    }
+}
+
+#[derive(Clone, Copy, Debug)]
+struct Cell {
+    derive: &'static str,
+    attr: &'static str,
+    fam: Fam,
+    pos: Pos,
+    kind: Kind,
+}
+
+impl Cell {
+    fn label(&self) -> String {
+        format!("{}/{}/{}", self.derive, self.pos.name(), self.kind.name())
+    }
+}
+
+/// The (derive, position, kind) cells. Positions are those the derive's documentation names
+/// (DESIGN Appendix A, transcribed from impl/doc/*.md); kinds are those that make sense for the
+/// documented grammar at that position (e.g. no `co:unknown` where an identifier reads as a type).
+fn cells() -> Vec<Cell> {
+    use Kind::*;
+    use Pos::*;
+    let mut out = vec![];
+    for d in Derive::all() {
+        let info = d.info();
+        let Some(attr) = info.attr else { continue };
+        let Some(fam) = fam_of(info.name) else { continue };
+        let mut add = |pos: Pos, kinds: &[Kind]| {
+            for k in kinds {
+                out.push(Cell { derive: info.name, attr, fam, pos, kind: *k });
+            }
+        };
+        match fam {
+            // display.md: struct / enum / variant / union carry `"lit", args`, `bound(..)`; `rename_all` (structs, enums, variants)
+            Fam::Display => {
+                for p in [Struct, Enum, Variant, Union] {
+                    add(p, &[RwBound, RwTrail, RwPerm, CoUnknown, CoDupLit, CoLegacyFmt, CoLegacyBound]);
+                }
+                if info.name == "Display" {
+                    for p in [Struct, Enum, Variant] {
+                        add(p, &[CoDupRename]);
+                    }
+                }
+            }
+            // debug.md: struct / variant: literal; struct / enum: bound(s); field: skip|ignore, literal
+            Fam::Debug => {
+                add(Struct, &[RwBound, RwTrail, RwPerm, CoUnknown, CoDupLit, CoLegacyFmt, CoLegacyBound, CoContra]);
+                add(Enum, &[RwBound, RwTrail, RwPerm, CoUnknown, CoKind, CoLegacyBound]);
+                add(Variant, &[RwTrail, RwPerm, CoUnknown, CoDupLit, CoLegacyFmt, CoContra]);
+                add(Field, &[RwSkip, RwTrail, RwPerm, CoUnknown, CoDupLit, CoLegacyFmt, CoContra]);
+            }
+            // from.md: struct: forward | types; variant: empty | skip|ignore | forward | types
+            Fam::From => {
+                add(Struct, &[RwNTypes, RwTrail, RwPerm, CoLegacyTypes]);
+                add(Variant, &[RwSkip, RwNTypes, RwTrail, RwPerm, CoLegacyTypes, CoContra]);
+            }
+            // into.md: struct: empty | types | owned/ref/ref_mut[(types)]; field: same + skip|ignore; enums unsupported
+            Fam::Into => {
+                add(Struct, &[RwNTypes, RwTrail, RwPerm, CoLegacyTypes]);
+                add(Field, &[RwSkip, RwNTypes, RwTrail, RwPerm, CoLegacyTypes]);
+                add(Enum, &[CoKind]);
+            }
+            // as_ref.md / as_mut.md: struct (one field): forward | types; field: empty | skip|ignore | forward | types
+            Fam::AsRef => {
+                add(Struct, &[RwNTypes, RwTrail, RwPerm, CoKind]);
+                add(Field, &[RwSkip, RwNTypes, RwTrail, RwPerm, CoContra]);
+                add(Enum, &[CoKind]);
+            }
+            // try_from.md: enum: `#[try_from(repr)]` + `#[repr(u/i*)]`
+            Fam::TryFrom => {
+                add(Enum, &[RwPerm, CoUnknown, CoDupTryFrom, CoDupRepr]);
+                add(Struct, &[CoKind]);
+            }
+            // error.md: field: source, backtrace, not(..), ignore; variant: ignore
+            Fam::Error => {
+                add(Field, &[RwTrail, RwPerm, CoUnknown, CoContra]);
+                add(Variant, &[RwPerm, CoUnknown, CoKind]);
+                add(Struct, &[CoKind]);
+            }
+            // deref.md / deref_mut.md: struct: forward; field: empty | ignore | forward; enums unsupported
+            Fam::Deref => {
+                add(Struct, &[RwPerm, CoUnknown]);
+                add(Field, &[RwPerm, CoUnknown, CoContra]);
+                add(Enum, &[CoKind]);
+            }
+            // index.md / index_mut.md: field: empty | ignore
+            Fam::Index => add(Field, &[RwPerm, CoUnknown]),
+            // into_iterator.md: struct / field: owned, ref, ref_mut; field: empty | ignore
+            Fam::IntoIter => {
+                add(Struct, &[RwTrail, RwPerm, CoUnknown]);
+                add(Field, &[RwTrail, RwPerm, CoUnknown, CoContra]);
+                add(Enum, &[CoKind]);
+            }
+            // is_variant.md: variant: ignore
+            Fam::IsVariant => add(Variant, &[RwPerm, CoUnknown]),
+            // unwrap.md / try_unwrap.md: enum, variant: ref, ref_mut; variant: ignore
+            // try_into.md: enum, variant: owned, ref, ref_mut; variant: empty | ignore
+            Fam::Unwrap | Fam::TryInto => {
+                add(Enum, &[RwTrail, RwPerm, CoUnknown]);
+                add(Variant, &[RwTrail, RwPerm, CoUnknown, CoContra]);
+                add(Struct, &[CoKind]);
+            }
+            // mul.md / mul_assign.md: struct: forward
+            Fam::Mul => add(Struct, &[RwPerm, CoUnknown]),
+        }
+    }
+    out
+}
+
+/// what the generator must provide at the target location so that the kind is applicable
+#[derive(Clone, Copy, Debug, PartialEq, Eq)]
+enum Need {
+    Any,
+    /// a `skip` / `ignore` attribute
+    Skip,
+    /// a `bound(..)` / `bounds(..)` argument
+    Bound,
+    /// a type list with >= 2 types
+    Types2,
+    /// an attribute with a list that may take a trailing comma
+    List,
+    /// >= 2 attributes (own or foreign)
+    TwoAttrs,
+    /// a format literal attribute
+    Lit,
+    /// a `rename_all` attribute
+    Rename,
+    /// a conversion marker (empty / forward / types) but no skip (base of skip+marker contradictions)
+    Marker,
+    /// a selecting legacy attribute the contradiction can extend
+    Select,
+    /// Debug: literal on a field, none on the container / variant
+    FieldLit,
+    /// TryFrom: a `#[repr(int)]` is present
+    Repr,
+}
+
+fn need_of(c: &Cell) -> Need {
+    match c.kind {
+        Kind::RwSkip => Need::Skip,
+        Kind::RwBound => Need::Bound,
+        Kind::RwNTypes => Need::Types2,
+        Kind::RwTrail => Need::List,
+        Kind::RwPerm => Need::TwoAttrs,
+        Kind::CoDupLit => Need::Lit,
+        Kind::CoDupRename => Need::Rename,
+        Kind::CoDupRepr => Need::Repr,
+        Kind::CoContra => match (c.fam, c.pos) {
+            (Fam::Debug, Pos::Field) => Need::Skip,
+            (Fam::Debug, _) => Need::FieldLit,
+            (Fam::AsRef, _) | (Fam::From, _) => Need::Marker,
+            _ => Need::Select,
+        },
+        Kind::CoKind => match c.fam {
+            Fam::Unwrap | Fam::TryInto | Fam::IntoIter | Fam::Deref => Need::List,
+            _ => Need::Any,
+        },
+        _ => Need::Any,
+    }
+}
+
+// ------------------------------------------------------------------------------------------------
+// generators of well-formed attributed items (one per family)
+
+struct Gen {
+    item: Item,
+    loc: Loc,
+    /// the item compiles on stable with the real proc-macro (by construction)
+    e2: bool,
+}
+
+const SNAMES: [&str; 5] = ["S", "Foo", "FooBar", "Wrapper", "MyType"];
+const ENAMES: [&str; 4] = ["E", "Kind", "MyEnum", "Choice"];
+const VNAMES: [(&str, &str); 6] = [("A", "a"), ("B", "b"), ("Unit", "unit"), ("VariantOne", "variant_one"), ("Named", "named"), ("Pair", "pair")];
+const FNAMES: [&str; 6] = ["a", "b", "x", "field", "inner", "value"];
+
+fn foreign_attr(d: &mut Dice) -> Attr {
+    match d.pick(3) {
+        0 => Attr::raw("allow", "dead_code"),
+        1 => Attr { name: "doc".into(), args: None, trailing: false }.with_eq("\"documented\""),
+        _ => Attr::raw("allow", "unused, clippy::all"),
+    }
+}
+
+impl Attr {
+    /// `#[name = value]` (rendered through a Raw trick: name holds `name = value`)
+    fn with_eq(mut self, v: &str) -> Attr {
+        self.name = format!("{} = {v}", self.name);
+        self
+    }
+}
+
+/// inserts `a` at a dice-chosen index
+fn insert_at(v: &mut Vec<Attr>, a: Attr, d: &mut Dice) {
+    let i = d.pick(v.len() + 1);
+    v.insert(i, a);
+}
+
+fn mk_field(name: Option<&str>, ty: &str, inst: &str) -> Field {
+    Field { attrs: vec![], name: name.map(|s| s.to_string()), ty: ty.to_string(), val: val_of(if ty == "T" { inst } else { ty }) }
+}
+
+fn pick_names(d: &mut Dice, n: usize) -> Vec<&'static str> {
+    let off = d.pick(FNAMES.len());
+    (0..n).map(|i| FNAMES[(off + i) % FNAMES.len()]).collect()
+}
+
+fn mk_fields(d: &mut Dice, shape: Shape, tys: &[String], inst: &str) -> Vec<Field> {
+    match shape {
+        Shape::Unit => vec![],
+        Shape::Tuple => tys.iter().map(|t| mk_field(None, t, inst)).collect(),
+        Shape::Named => {
+            let names = pick_names(d, tys.len());
+            tys.iter().zip(names).map(|(t, n)| mk_field(Some(n), t, inst)).collect()
+        }
+    }
+}
+
+fn field_vars(shape: Shape, fields: &[Field]) -> Vec<String> {
+    match shape {
+        Shape::Unit => vec![],
+        Shape::Tuple => (0..fields.len()).map(|i| format!("_{i}")).collect(),
+        Shape::Named => fields.iter().map(|f| f.name.clone().unwrap_or_default()).collect(),
+    }
+}
+
+#[derive(Clone, Copy, PartialEq)]
+enum LitStyle {
+    /// may reference the given field variables
+    Fields,
+    /// enum-level wrapping format: contains `{_variant}`, no field references
+    Wrapping,
+    /// no field references at all (enum default format, unions)
+    Plain,
+}
+
+/// `"literal", args..` of a fmt attribute. Specs are restricted to what every field type of the
+/// generators' pools supports (integers, strings, references to them): display, `?`, width/alignment.
+fn gen_lit(d: &mut Dice, vars: &[String], style: LitStyle, int_like: bool) -> Vec<Arg> {
+    let texts = ["x", "val: ", " - ", "[", "]", "{{", "}}", "é"];
+    let mut lit = String::new();
+    let mut args: Vec<Arg> = vec![];
+    let mut named: Vec<Arg> = vec![];
+    let n = d.range(1, 3);
+    let mut have_variant = false;
+    for i in 0..n {
+        if d.chance(40) {
+            lit.push_str(texts[d.pick(texts.len())]);
+        }
+        let spec = if int_like { ["", ":?", ":>6", ":x", ":+"][d.pick(5)] } else { ["", ":?", ":>6"][d.pick(3)] };
+        match style {
+            LitStyle::Fields if !vars.is_empty() && d.chance(75) => {
+                let v = &vars[d.pick(vars.len())];
+                if d.chance(50) {
+                    lit.push_str(&format!("{{{v}{spec}}}"));
+                } else {
+                    lit.push_str(&format!("{{{spec}}}"));
+                    args.push(Arg::Expr(v.clone()));
+                }
+            }
+            LitStyle::Wrapping if !have_variant || d.chance(30) => {
+                have_variant = true;
+                if d.chance(70) {
+                    lit.push_str("{_variant}");
+                } else {
+                    lit.push_str("{}");
+                    args.push(Arg::Expr("_variant".into()));
+                }
+            }
+            _ => match d.pick(3) {
+                0 => lit.push_str(texts[d.pick(texts.len())]),
+                1 => {
+                    lit.push_str("{}");
+                    args.push(Arg::Expr(["1 + 1", "\"s\"", "7u8"][d.pick(3)].into()));
+                }
+                _ => {
+                    let k = format!("k{i}");
+                    lit.push_str(&format!("{{{k}}}"));
+                    named.push(Arg::Expr(format!("{k} = {}", ["2", "\"t\""][d.pick(2)])));
+                }
+            },
+        }
+    }
+    if style == LitStyle::Wrapping && !have_variant {
+        lit.push_str("{_variant}");
+    }
+    let mut out = vec![Arg::Lit(lit_tok(&lit))];
+    out.extend(args);
+    out.extend(named);
+    out
+}
+
+fn gen_bound(d: &mut Dice, generic: bool) -> Arg {
+    let tr = ["Clone", "Copy", "core::fmt::Debug", "PartialEq", "Send", "Copy + Clone"];
+    let n = d.range(1, 2);
+    let preds: Vec<String> = (0..n)
+        .map(|_| {
+            let t = tr[d.pick(tr.len())];
+            if generic {
+                format!("T: {t}")
+            } else {
+                format!("{}: {t}", ["i32", "u8", "&'static str"][d.pick(3)])
+            }
+        })
+        .collect();
+    let head = if d.chance(50) { "bounds" } else { "bound" };
+    Arg::Call(head.into(), preds, false)
+}
+
+const CASINGS: [&str; 8] = ["lowercase", "UPPERCASE", "PascalCase", "camelCase", "snake_case", "SCREAMING_SNAKE_CASE", "kebab-case", "SCREAMING-KEBAB-CASE"];
+
+fn gen_rename(d: &mut Dice) -> Arg {
+    Arg::NameValue("rename_all".into(), lit_tok(CASINGS[d.pick(CASINGS.len())]))
+}
+
+/// container attributes of a fmt derive: at most one literal, one bound, one rename_all, each its own
+/// attribute (display.md: `#[display("...", args...)]`, `#[display(bound(...))]`, `#[display(rename_all = "...")]`)
+#[allow(clippy::too_many_arguments)]
+fn fmt_attrs(d: &mut Dice, attr: &str, need: Option<Need>, vars: &[String], style: LitStyle, int_like: bool, generic: bool, allow_rename: bool, allow_bound: bool, must_lit: bool, allow_lit: bool) -> Vec<Attr> {
+    let mut want_lit = allow_lit && (must_lit || d.chance(45));
+    let mut want_bound = allow_bound && d.chance(30);
+    let mut want_rename = allow_rename && d.chance(25);
+    let mut want_foreign = d.chance(15);
+    match need {
+        Some(Need::Bound) => want_bound = allow_bound,
+        Some(Need::Lit) => want_lit = allow_lit,
+        Some(Need::Rename) => want_rename = allow_rename,
+        Some(Need::List) => {
+            if allow_lit && (!allow_bound || d.chance(60)) {
+                want_lit = true
+            } else {
+                want_bound = allow_bound
+            }
+        }
+        Some(Need::TwoAttrs) => {
+            let mut n = want_lit as usize + want_bound as usize + want_rename as usize + want_foreign as usize;
+            let mut guard = 0;
+            while n < 2 && guard < 8 {
+                guard += 1;
+                match d.pick(4) {
+                    0 if allow_lit && !want_lit => want_lit = true,
+                    1 if allow_bound && !want_bound => want_bound = true,
+                    2 if allow_rename && !want_rename => want_rename = true,
+                    3 if !want_foreign => want_foreign = true,
+                    _ => continue,
+                }
+                n += 1;
+            }
+            if n < 2 {
+                want_foreign = true;
+            }
+        }
+        _ => {}
+    }
+    let mut out = vec![];
+    if want_lit {
+        out.push(Attr::with(attr, gen_lit(d, vars, style, int_like)));
+    }
+    if want_bound {
+        insert_at(&mut out, Attr::with(attr, vec![gen_bound(d, generic)]), d);
+    }
+    if want_rename {
+        insert_at(&mut out, Attr::with(attr, vec![gen_rename(d)]), d);
+    }
+    if want_foreign {
+        insert_at(&mut out, foreign_attr(d), d);
+        if need == Some(Need::TwoAttrs) && out.len() < 2 {
+            insert_at(&mut out, Attr::raw("allow", "unused"), d);
+        }
+    }
+    out
+}
+
+fn pick_shape(d: &mut Dice, unit_ok: bool) -> Shape {
+    match d.weighted(&[4, 4, if unit_ok { 2 } else { 0 }]) {
+        0 => Shape::Tuple,
+        1 => Shape::Named,
+        _ => Shape::Unit,
+    }
+}
+
+/// display.md — Display, Binary, Octal, LowerHex, UpperHex, LowerExp, UpperExp, Pointer
+fn gen_display(c: &Cell, pos: Pos, need: Need, d: &mut Dice) -> Option<Gen> {
+    let is_display = c.derive == "Display";
+    let ptr = c.derive == "Pointer";
+    let attr = c.attr;
+    let generic = pos != Pos::Union && (need == Need::Bound && d.chance(70) || d.chance(30));
+    let inst = if ptr { "&'static i32" } else { "i32" };
+    let base: Vec<&str> = if ptr {
+        vec!["&'static i32"]
+    } else if is_display {
+        vec!["i32", "u8", "&'static str", "i64"]
+    } else {
+        vec!["i32", "u8", "i64"]
+    };
+    let int_like = !is_display; // `:x`/`:+` only where every pool type supports them (integers, references to them)
+    let fty = |d: &mut Dice| -> String {
+        if generic && d.chance(50) {
+            "T".into()
+        } else {
+            base[d.pick(base.len())].into()
+        }
+    };
+    let generics = if generic { "<T>".to_string() } else { String::new() };
+    match pos {
+        Pos::Struct => {
+            let shape = pick_shape(d, true);
+            let n = if shape == Shape::Unit { 0 } else { d.range(1, 3) };
+            let mut tys: Vec<String> = (0..n).map(|_| fty(d)).collect();
+            if generic && !tys.iter().any(|t| t == "T") {
+                if tys.is_empty() {
+                    return gen_display(c, pos, need, d);
+                }
+                tys[0] = "T".into();
+            }
+            let fields = mk_fields(d, shape, &tys, inst);
+            let vars = field_vars(shape, &fields);
+            let must_lit = n != 1 && !(n == 0 && is_display);
+            let attrs = fmt_attrs(d, attr, Some(need), &vars, LitStyle::Fields, int_like, generic, is_display, true, must_lit, true);
+            Some(Gen { item: Item { attrs, name: SNAMES[d.pick(SNAMES.len())].into(), generics, body: Body::Struct(shape, fields) }, loc: Loc::Container, e2: true })
+        }
+        Pos::Union => {
+            let n = d.range(1, 2);
+            let fields: Vec<Field> = (0..n).map(|i| mk_field(Some(["a", "b"][i]), ["i32", "u32"][i], inst)).collect();
+            let attrs = fmt_attrs(d, attr, Some(need), &[], LitStyle::Plain, false, false, false, true, true, true);
+            Some(Gen { item: Item { attrs, name: ["U", "MyUnion"][d.pick(2)].into(), generics: String::new(), body: Body::Union(fields) }, loc: Loc::Container, e2: true })
+        }
+        Pos::Enum | Pos::Variant => {
+            let nv = d.range(1, 3);
+            let target = d.pick(nv);
+            let off = d.pick(VNAMES.len());
+            let shared = if pos == Pos::Enum && matches!(need, Need::Lit | Need::List) || d.chance(30) { Some(d.chance(50)) } else { None };
+            let mut vs = vec![];
+            let mut used_t = false;
+            for i in 0..nv {
+                let (vn, sn) = VNAMES[(off + i) % VNAMES.len()];
+                let shape = pick_shape(d, true);
+                let n = if shape == Shape::Unit { 0 } else { d.range(1, 2) };
+                let mut tys: Vec<String> = (0..n).map(|_| fty(d)).collect();
+                if generic && !used_t && n > 0 && (i + 1 == nv || d.chance(50)) {
+                    tys[0] = "T".into();
+                }
+                used_t |= tys.iter().any(|t| t == "T");
+                let fields = mk_fields(d, shape, &tys, inst);
+                let vars = field_vars(shape, &fields);
+                let must_lit = n >= 2 || (n == 0 && !is_display);
+                let nd = if pos == Pos::Variant && i == target { Some(need) } else { None };
+                let attrs = fmt_attrs(d, attr, nd, &vars, LitStyle::Fields, int_like, generic, is_display, generic, must_lit, true);
+                vs.push(Variant { attrs, name: vn.into(), snake: sn.into(), shape, fields, discr: None });
+            }
+            if generic && !used_t {
+                // an unused type parameter does not compile: give the first variant a `T` field
+                let f = mk_field(None, "T", inst);
+                vs[0].shape = Shape::Tuple;
+                vs[0].fields = vec![f];
+                vs[0].attrs.retain(|a| !a.has_lit());
+                if pos == Pos::Variant && target == 0 && matches!(need, Need::Lit | Need::List | Need::TwoAttrs) {
+                    let vars = vec!["_0".to_string()];
+                    vs[0].attrs = fmt_attrs(d, attr, Some(need), &vars, LitStyle::Fields, int_like, generic, is_display, true, false, true);
+                }
+            }
+            let style = match shared {
+                Some(true) => LitStyle::Wrapping,
+                _ => LitStyle::Plain,
+            };
+            let nd = if pos == Pos::Enum { Some(need) } else { None };
+            let mut attrs = fmt_attrs(d, attr, nd, &[], style, false, generic, is_display, true, false, shared.is_some());
+            if shared.is_none() {
+                attrs.retain(|a| !a.has_lit());
+                if pos == Pos::Enum && need == Need::TwoAttrs && attrs.len() < 2 {
+                    attrs.push(foreign_attr(d));
+                    attrs.push(Attr::raw("allow", "unused"));
+                }
+            }
+            let loc = if pos == Pos::Enum { Loc::Container } else { Loc::Variant(target) };
+            Some(Gen { item: Item { attrs, name: ENAMES[d.pick(ENAMES.len())].into(), generics, body: Body::Enum(vs) }, loc, e2: true })
+        }
+        Pos::Field => None,
+    }
+}
+
+/// debug.md — struct / variant: literal; struct / enum: bound(s); field: skip | ignore | literal
+fn gen_debug(c: &Cell, pos: Pos, need: Need, d: &mut Dice) -> Option<Gen> {
+    let attr = c.attr;
+    let generic = need == Need::Bound && d.chance(70) || d.chance(30);
+    let generics = if generic { "<T>".to_string() } else { String::new() };
+    let base = ["i32", "String", "u8", "&'static str"];
+    let fty = |d: &mut Dice| -> String {
+        if generic && d.chance(50) {
+            "T".into()
+        } else {
+            base[d.pick(base.len())].into()
+        }
+    };
+    // attributes of the fields of one struct / variant; `container_lit`: the container carries a literal
+    let field_attrs = |d: &mut Dice, fields: &mut Vec<Field>, shape: Shape, container_lit: bool, target: Option<(usize, Need)>| {
+        let all_vars = field_vars(shape, fields);
+        for (i, f) in fields.iter_mut().enumerate() {
+            // a field format only refers to its own field (bounds for *other* generic fields used in a field
+            // format are C04's subject)
+            let vars = vec![all_vars[i].clone()];
+            let nd = target.filter(|(t, _)| *t == i).map(|(_, n)| n);
+            let mut a = vec![];
+            let choice = match nd {
+                Some(Need::Skip) => 1,
+                Some(Need::Lit) | Some(Need::List) | Some(Need::FieldLit) => 2,
+                Some(Need::TwoAttrs) => 1 + d.pick(2),
+                Some(_) => d.pick(3),
+                None => d.weighted(&[6, 2, 2]),
+            };
+            match choice {
+                1 => a.push(Attr::with(attr, vec![Arg::flag(if d.chance(50) { "ignore" } else { "skip" })])),
+                2 if !container_lit => a.push(Attr::with(attr, gen_lit(d, &vars, LitStyle::Fields, false))),
+                2 => a.push(Attr::with(attr, vec![Arg::flag("skip")])),
+                _ => {}
+            }
+            if nd == Some(Need::TwoAttrs) || d.chance(10) {
+                insert_at(&mut a, foreign_attr(d), d);
+            }
+            f.attrs = a;
+        }
+    };
+    match pos {
+        Pos::Struct | Pos::Field if pos == Pos::Struct || d.chance(50) => {
+            let shape = if pos == Pos::Field { pick_shape(d, false) } else { pick_shape(d, true) };
+            let n = if shape == Shape::Unit { 0 } else { d.range(1, 3) };
+            let mut tys: Vec<String> = (0..n).map(|_| fty(d)).collect();
+            if generic {
+                if tys.is_empty() {
+                    return gen_debug(c, pos, need, d);
+                }
+                if !tys.iter().any(|t| t == "T") {
+                    tys[0] = "T".into();
+                }
+            }
+            let mut fields = mk_fields(d, shape, &tys, "i32");
+            let vars = field_vars(shape, &fields);
+            let (cneed, ftarget) = match (pos, need) {
+                (Pos::Struct, Need::FieldLit) => {
+                    if n == 0 {
+                        return gen_debug(c, pos, need, d);
+                    }
+                    (None, Some((d.pick(n), Need::FieldLit)))
+                }
+                (Pos::Struct, nd) => (Some(nd), None),
+                (_, nd) => (None, Some((d.pick(n.max(1)), nd))),
+            };
+            let allow_lit = !(pos == Pos::Struct && need == Need::FieldLit) && !(pos == Pos::Field && matches!(need, Need::Lit | Need::List | Need::FieldLit));
+            let attrs = fmt_attrs(d, attr, cneed, &vars, LitStyle::Fields, false, generic, false, true, false, allow_lit);
+            let clit = attrs.iter().any(|a| a.has_lit());
+            field_attrs(d, &mut fields, shape, clit, ftarget);
+            let loc = if pos == Pos::Struct { Loc::Container } else { Loc::Field(ftarget.map(|t| t.0).unwrap_or(0)) };
+            Some(Gen { item: Item { attrs, name: SNAMES[d.pick(SNAMES.len())].into(), generics, body: Body::Struct(shape, fields) }, loc, e2: true })
+        }
+        _ => {
+            let nv = d.range(1, 3);
+            let target = d.pick(nv);
+            let off = d.pick(VNAMES.len());
+            let mut vs = vec![];
+            let mut used_t = false;
+            let mut floc = 0;
+            for i in 0..nv {
+                let (vn, sn) = VNAMES[(off + i) % VNAMES.len()];
+                let is_t = i == target;
+                let need_fields = is_t && (pos == Pos::Field || need == Need::FieldLit) || generic && !used_t && i + 1 == nv;
+                let shape = pick_shape(d, !need_fields);
+                let n = if shape == Shape::Unit { 0 } else { d.range(1, 2) };
+                let mut tys: Vec<String> = (0..n).map(|_| fty(d)).collect();
+                if generic && !used_t && n > 0 && (i + 1 == nv || d.chance(50)) {
+                    tys[0] = "T".into();
+                }
+                used_t |= tys.iter().any(|t| t == "T");
+                let mut fields = mk_fields(d, shape, &tys, "i32");
+                let vars = field_vars(shape, &fields);
+                let (vneed, ftarget) = match (pos, is_t, need) {
+                    (Pos::Variant, true, Need::FieldLit) => (None, Some((d.pick(n.max(1)), Need::FieldLit))),
+                    (Pos::Variant, true, nd) => (Some(nd), None),
+                    (Pos::Field, true, nd) => {
+                        floc = d.pick(n.max(1));
+                        (None, Some((floc, nd)))
+                    }
+                    _ => (None, None),
+                };
+                let allow_lit = !(is_t && (need == Need::FieldLit || pos == Pos::Field && matches!(need, Need::Lit | Need::List)));
+                // debug.md names only the literal for variants (bounds go on the struct / enum)
+                let attrs = fmt_attrs(d, attr, vneed, &vars, LitStyle::Fields, false, generic, false, false, false, allow_lit);
+                let vlit = attrs.iter().any(|a| a.has_lit());
+                field_attrs(d, &mut fields, shape, vlit, ftarget);
+                vs.push(Variant { attrs, name: vn.into(), snake: sn.into(), shape, fields, discr: None });
+            }
+            let nd = if pos == Pos::Enum { Some(need) } else { None };
+            let attrs = fmt_attrs(d, attr, nd, &[], LitStyle::Plain, false, generic, false, true, false, false);
+            let loc = match pos {
+                Pos::Enum => Loc::Container,
+                Pos::Variant => Loc::Variant(target),
+                _ => Loc::VField(target, floc),
+            };
+            Some(Gen { item: Item { attrs, name: ENAMES[d.pick(ENAMES.len())].into(), generics, body: Body::Enum(vs) }, loc, e2: true })
+        }
+    }
+}
+
+/// field type -> types it can be converted *from* (candidate sets are pairwise disjoint so that the
+/// impls generated for different enum variants never overlap)
+const FROM_POOL: [(&str, &[&str]); 5] = [
+    ("i32", &["i32", "i16", "u16"]),
+    ("i64", &["i64", "u32", "i8"]),
+    ("String", &["String", "&'static str", "Box<str>", "char"]),
+    ("f64", &["f64", "f32", "u8"]),
+    ("bool", &["bool"]),
+];
+/// field type -> types it can be converted *into* (pairwise disjoint)
+const INTO_POOL: [(&str, &[&str]); 5] = [
+    ("i32", &["i32", "i64", "i128"]),
+    ("u8", &["u8", "u16", "u32"]),
+    ("String", &["String", "Box<str>", "std::path::PathBuf"]),
+    ("f32", &["f32", "f64"]),
+    ("bool", &["bool"]),
+];
+
+/// `k` distinct conversion types for fields drawn from `pool[idx[..]]`: plain type for one field, tuple otherwise
+fn conv_types(d: &mut Dice, pool: &[(&str, &[&str])], idx: &[usize], k: usize) -> Vec<String> {
+    let mut out: Vec<String> = vec![];
+    let mut guard = 0;
+    while out.len() < k && guard < 40 {
+        guard += 1;
+        let parts: Vec<&str> = idx.iter().map(|i| pool[*i].1[d.pick(pool[*i].1.len())]).collect();
+        let t = if parts.len() == 1 { parts[0].to_string() } else { format!("({})", parts.join(", ")) };
+        if !out.contains(&t) {
+            out.push(t);
+        }
+    }
+    out
+}
+
+fn distinct_pools(d: &mut Dice, len: usize, n: usize) -> Vec<usize> {
+    // partial Fisher-Yates
+    let mut all: Vec<usize> = (0..len).collect();
+    let n = n.min(len);
+    for i in 0..n {
+        let j = i + d.pick(len - i);
+        all.swap(i, j);
+    }
+    all.truncate(n);
+    all
+}
+
+/// splits type attributes: `tys` over one or two attributes
+fn types_attrs(attr: &str, tys: Vec<String>, two: bool) -> Vec<Attr> {
+    let args: Vec<Arg> = tys.into_iter().map(Arg::Ty).collect();
+    if two && args.len() >= 2 {
+        let (a, b) = args.split_at(args.len() / 2);
+        vec![Attr::with(attr, a.to_vec()), Attr::with(attr, b.to_vec())]
+    } else {
+        vec![Attr::with(attr, args)]
+    }
+}
+
+/// from.md — struct: `forward` | `<types>`; variant: empty | `skip`/`ignore` | `forward` | `<types>`
+fn gen_from(c: &Cell, pos: Pos, need: Need, d: &mut Dice) -> Option<Gen> {
+    let attr = c.attr;
+    // conversion attribute(s) for fields of the given pools
+    let conv = |d: &mut Dice, idx: &[usize], need: Need, allow_empty: bool, allow_skip: bool| -> Vec<Attr> {
+        let cap: usize = idx.iter().map(|i| FROM_POOL[*i].1.len()).product();
+        let form = match need {
+            Need::Skip => 3,
+            Need::Types2 | Need::List => 2,
+            Need::TwoAttrs => {
+                if cap >= 2 && d.chance(50) {
+                    4
+                } else {
+                    5
+                }
+            }
+            Need::Marker => [0, 1, 2][d.pick(3)],
+            _ => d.pick(4),
+        };
+        match form {
+            0 if allow_empty => vec![Attr::bare(attr)],
+            0 | 1 => vec![Attr::with(attr, vec![Arg::flag("forward")])],
+            2 => {
+                let k = if need == Need::Types2 { d.range(2, 3).min(cap.max(2)) } else { d.range(1, 3).min(cap) };
+                types_attrs(attr, conv_types(d, &FROM_POOL, idx, k), false)
+            }
+            3 if allow_skip => vec![Attr::with(attr, vec![Arg::flag(if d.chance(50) { "ignore" } else { "skip" })])],
+            3 => vec![Attr::with(attr, vec![Arg::flag("forward")])],
+            4 => {
+                let k = d.range(2, 3).min(cap);
+                types_attrs(attr, conv_types(d, &FROM_POOL, idx, k), true)
+            }
+            _ => {
+                let mut v = match d.pick(if allow_skip { 3 } else { 2 }) {
+                    0 => vec![Attr::with(attr, vec![Arg::flag("forward")])],
+                    1 => types_attrs(attr, conv_types(d, &FROM_POOL, idx, 1), false),
+                    _ => vec![Attr::with(attr, vec![Arg::flag("skip")])],
+                };
+                insert_at(&mut v, foreign_attr(d), d);
+                v
+            }
+        }
+    };
+    match pos {
+        Pos::Struct => {
+            let n = d.range(1, 2);
+            let mut idx: Vec<usize> = (0..n).map(|_| d.pick(FROM_POOL.len())).collect();
+            if need == Need::Types2 && idx.iter().all(|i| FROM_POOL[*i].1.len() < 2) {
+                idx[0] = 0;
+            }
+            let shape = pick_shape(d, false);
+            let tys: Vec<String> = idx.iter().map(|i| FROM_POOL[*i].0.to_string()).collect();
+            let fields = mk_fields(d, shape, &tys, "i32");
+            let attrs = conv(d, &idx, need, false, false);
+            Some(Gen { item: Item { attrs, name: SNAMES[d.pick(SNAMES.len())].into(), generics: String::new(), body: Body::Struct(shape, fields) }, loc: Loc::Container, e2: true })
+        }
+        Pos::Variant => {
+            let nv = d.range(1, 3);
+            let target = d.pick(nv);
+            let mut pools = distinct_pools(d, FROM_POOL.len(), nv + 1);
+            if need == Need::Types2 && FROM_POOL[pools[target]].1.len() < 2 {
+                let j = pools.iter().position(|p| FROM_POOL[*p].1.len() >= 2).unwrap_or(0);
+                pools.swap(target, j);
+            }
+            let off = d.pick(VNAMES.len());
+            let two_field = d.chance(25);
+            let mut vs = vec![];
+            for i in 0..nv {
+                let (vn, sn) = VNAMES[(off + i) % VNAMES.len()];
+                let idx: Vec<usize> = if i == target && two_field { vec![pools[i], pools[nv]] } else { vec![pools[i]] };
+                let shape = pick_shape(d, false);
+                let tys: Vec<String> = idx.iter().map(|j| FROM_POOL[*j].0.to_string()).collect();
+                let fields = mk_fields(d, shape, &tys, "i32");
+                let attrs = if i == target { conv(d, &idx, need, true, true) } else { vec![] };
+                vs.push(Variant { attrs, name: vn.into(), snake: sn.into(), shape, fields, discr: None });
+            }
+            // the other variants: a blanket `forward` impl tolerates no other impl; otherwise empty / skip / types of their own pool
+            let target_forward = vs[target].attrs.iter().any(|a| a.has_flag("forward"));
+            for i in 0..nv {
+                if i == target {
+                    continue;
+                }
+                let idx = [pools[i]];
+                vs[i].attrs = match d.pick(4) {
+                    0 => vec![],
+                    1 => vec![Attr::with(attr, vec![Arg::flag(if d.chance(50) { "skip" } else { "ignore" })])],
+                    2 if !target_forward => vec![Attr::bare(attr)],
+                    3 if !target_forward => types_attrs(attr, conv_types(d, &FROM_POOL, &idx, 1), false),
+                    _ => vec![],
+                };
+            }
+            if d.chance(20) {
+                vs.push(Variant { attrs: vec![], name: "Nothing".into(), snake: "nothing".into(), shape: Shape::Unit, fields: vec![], discr: None });
+            }
+            Some(Gen { item: Item { attrs: vec![], name: ENAMES[d.pick(ENAMES.len())].into(), generics: String::new(), body: Body::Enum(vs) }, loc: Loc::Variant(target), e2: true })
+        }
+        _ => None,
+    }
+}
+
+/// into.md — struct: `#[into]` | `#[into(<types>)]` | `#[into(owned(..), ref(..), ref_mut(..))]`; field: same + `skip`/`ignore`
+fn gen_into(c: &Cell, pos: Pos, need: Need, d: &mut Dice) -> Option<Gen> {
+    let attr = c.attr;
+    // arguments of one conversion attribute for the fields `idx` (None = bare `#[into]`)
+    let conv_args = |d: &mut Dice, idx: &[usize], types2: bool, nonempty: bool| -> Option<Vec<Arg>> {
+        let cap: usize = idx.iter().map(|i| INTO_POOL[*i].1.len()).product();
+        let own: Vec<&str> = idx.iter().map(|i| INTO_POOL[*i].0).collect();
+        let own_ty = if own.len() == 1 { own[0].to_string() } else { format!("({})", own.join(", ")) };
+        let form = if types2 {
+            1 + d.pick(2)
+        } else if nonempty {
+            1 + d.pick(2)
+        } else {
+            d.pick(3)
+        };
+        match form {
+            0 => None,
+            1 => {
+                let k = if types2 { 2.min(cap.max(2)) + d.pick(2).min(cap.saturating_sub(2)) } else { d.range(1, 3).min(cap) };
+                Some(conv_types(d, &INTO_POOL, idx, k).into_iter().map(Arg::Ty).collect())
+            }
+            _ => {
+                let mut args = vec![];
+                let force_owned = types2;
+                if force_owned || d.chance(60) {
+                    if types2 || d.chance(50) {
+                        let k = if types2 { 2.min(cap.max(2)) } else { d.range(1, 2).min(cap) };
+                        args.push(Arg::Call("owned".into(), conv_types(d, &INTO_POOL, idx, k), false));
+                    } else {
+                        args.push(Arg::flag("owned"));
+                    }
+                }
+                for r in ["ref", "ref_mut"] {
+                    if d.chance(45) {
+                        if d.chance(40) {
+                            args.push(Arg::Call(r.into(), vec![own_ty.clone()], false));
+                        } else {
+                            args.push(Arg::flag(r));
+                        }
+                    }
+                }
+                if args.is_empty() {
+                    args.push(Arg::flag("ref"));
+                }
+                Some(args)
+            }
+        }
+    };
+    let mk = |args: Option<Vec<Arg>>| Attr { name: attr.to_string(), args, trailing: false };
+    let n = if pos == Pos::Field { d.range(2, 3) } else { d.range(1, 3) };
+    let mut pools = distinct_pools(d, INTO_POOL.len(), n);
+    let shape = pick_shape(d, false);
+    let target = d.pick(n);
+    if need == Need::Types2 {
+        // the type lists need >= 2 candidates
+        if pos == Pos::Field && INTO_POOL[pools[target]].1.len() < 2 {
+            pools[target] = (0..INTO_POOL.len()).find(|p| !pools.contains(p) && INTO_POOL[*p].1.len() >= 2).unwrap_or(0);
+        }
+        if pos == Pos::Struct && pools.iter().all(|p| INTO_POOL[*p].1.len() < 2) {
+            pools[0] = 0;
+        }
+    }
+    let tys: Vec<String> = pools.iter().map(|i| INTO_POOL[*i].0.to_string()).collect();
+    let mut fields = mk_fields(d, shape, &tys, "i32");
+    match pos {
+        Pos::Struct => {
+            // some non-target fields are skipped
+            let mut kept: Vec<usize> = vec![];
+            for i in 0..n {
+                if n > 1 && i > 0 && d.chance(20) {
+                    fields[i].attrs.push(Attr::with(attr, vec![Arg::flag(if d.chance(50) { "skip" } else { "ignore" })]));
+                } else {
+                    kept.push(pools[i]);
+                }
+            }
+            if need == Need::Types2 && kept.iter().all(|p| INTO_POOL[*p].1.len() < 2) {
+                return gen_into(c, pos, need, d);
+            }
+            let mut attrs = match need {
+                Need::TwoAttrs => match d.pick(3) {
+                    0 => {
+                        let cap: usize = kept.iter().map(|i| INTO_POOL[*i].1.len()).product();
+                        if cap >= 2 {
+                            types_attrs(attr, conv_types(d, &INTO_POOL, &kept, 2), true)
+                        } else {
+                            vec![mk(Some(vec![Arg::flag("owned")])), mk(Some(vec![Arg::flag("ref")]))]
+                        }
+                    }
+                    1 => vec![mk(Some(vec![Arg::flag("owned")])), mk(Some(vec![Arg::flag(if d.chance(50) { "ref" } else { "ref_mut" })]))],
+                    _ => {
+                        let mut v = vec![mk(conv_args(d, &kept, false, false))];
+                        insert_at(&mut v, foreign_attr(d), d);
+                        v
+                    }
+                },
+                Need::Types2 => vec![mk(conv_args(d, &kept, true, true))],
+                Need::List => vec![mk(conv_args(d, &kept, false, true))],
+                _ => vec![mk(conv_args(d, &kept, false, false))],
+            };
+            if d.chance(10) {
+                insert_at(&mut attrs, foreign_attr(d), d);
+            }
+            Some(Gen { item: Item { attrs, name: SNAMES[d.pick(SNAMES.len())].into(), generics: String::new(), body: Body::Struct(shape, fields) }, loc: Loc::Container, e2: true })
+        }
+        Pos::Field => {
+            let idx = [pools[target]];
+            let skip = || Attr::with(attr, vec![Arg::flag("skip")]);
+            let fa: Vec<Attr> = match need {
+                Need::Skip => {
+                    let mut v = vec![Attr::with(attr, vec![Arg::flag(if d.chance(50) { "ignore" } else { "skip" })])];
+                    if d.chance(40) {
+                        // into.md: "Fields, having specific conversions into them, can also be skipped for top-level tuple conversions"
+                        insert_at(&mut v, mk(conv_args(d, &idx, false, false)), d);
+                    }
+                    v
+                }
+                Need::Types2 => vec![mk(conv_args(d, &idx, true, true))],
+                Need::List => vec![mk(conv_args(d, &idx, false, true))],
+                Need::TwoAttrs => match d.pick(3) {
+                    0 => vec![mk(conv_args(d, &idx, false, false)), skip()],
+                    1 => vec![mk(Some(vec![Arg::flag("owned")])), mk(Some(vec![Arg::flag("ref")]))],
+                    _ => {
+                        let mut v = vec![mk(conv_args(d, &idx, false, false))];
+                        insert_at(&mut v, foreign_attr(d), d);
+                        v
+                    }
+                },
+                _ => match d.pick(3) {
+                    0 => vec![skip()],
+                    _ => vec![mk(conv_args(d, &idx, false, false))],
+                },
+            };
+            fields[target].attrs = fa;
+            // optional struct-level attribute over all non-skipped fields
+            let mut attrs = vec![];
+            if d.chance(40) {
+                let kept: Vec<usize> = (0..n).filter(|i| !fields[*i].attrs.iter().any(|a| a.has_flag("skip") || a.has_flag("ignore"))).map(|i| pools[i]).collect();
+                if !kept.is_empty() {
+                    attrs.push(mk(conv_args(d, &kept, false, false)));
+                }
+            }
+            Some(Gen { item: Item { attrs, name: SNAMES[d.pick(SNAMES.len())].into(), generics: String::new(), body: Body::Struct(shape, fields) }, loc: Loc::Field(target), e2: true })
+        }
+        _ => None,
+    }
+}
+
+/// field type -> `AsRef` targets; the first three are "rich" (several targets), the rest plain
+const ASREF_POOL: [(&str, &[&str]); 6] = [
+    ("String", &["str", "[u8]", "String", "std::ffi::OsStr", "std::path::Path"]),
+    ("Vec<i32>", &["[i32]", "Vec<i32>"]),
+    ("Box<i64>", &["i64", "Box<i64>"]),
+    ("i32", &["i32"]),
+    ("bool", &["bool"]),
+    ("u8", &["u8"]),
+];
+const ASMUT_POOL: [(&str, &[&str]); 6] = [
+    ("String", &["str", "String"]),
+    ("Vec<i32>", &["[i32]", "Vec<i32>"]),
+    ("Box<i64>", &["i64", "Box<i64>"]),
+    ("i32", &["i32"]),
+    ("bool", &["bool"]),
+    ("u8", &["u8"]),
+];
+
+/// as_ref.md / as_mut.md — struct (exactly one field): `forward` | `<types>`; field: empty | `skip`/`ignore` | `forward` | `<types>`
+fn gen_asref(c: &Cell, pos: Pos, need: Need, d: &mut Dice) -> Option<Gen> {
+    let attr = c.attr;
+    let pool: &[(&str, &[&str])] = if c.derive == "AsMut" { &ASMUT_POOL } else { &ASREF_POOL };
+    let types = |d: &mut Dice, p: usize, k: usize| -> Vec<String> { conv_types(d, pool, &[p], k.min(pool[p].1.len())) };
+    // marker attribute(s) for a field of pool `p`
+    let marker = |d: &mut Dice, p: usize, need: Need, allow_empty: bool, allow_forward: bool| -> Vec<Attr> {
+        let rich = pool[p].1.len() >= 2;
+        let form = match need {
+            Need::Types2 | Need::List => 2,
+            Need::TwoAttrs => {
+                if rich && d.chance(50) {
+                    3
+                } else {
+                    4
+                }
+            }
+            _ => d.pick(3),
+        };
+        match form {
+            0 if allow_empty => vec![Attr::bare(attr)],
+            // `forward` needs a field type with `AsRef` impls of its own (the rich pools)
+            0 | 1 if allow_forward && rich => vec![Attr::with(attr, vec![Arg::flag("forward")])],
+            0 | 1 | 2 => {
+                let k = if need == Need::Types2 { d.range(2, 3) } else { d.range(1, 3) };
+                types_attrs(attr, types(d, p, k), false)
+            }
+            3 => {
+                let k = d.range(2, 3);
+                types_attrs(attr, types(d, p, k), true)
+            }
+            _ => {
+                let mut v = if allow_forward && rich && d.chance(40) { vec![Attr::with(attr, vec![Arg::flag("forward")])] } else { types_attrs(attr, types(d, p, 1), false) };
+                insert_at(&mut v, foreign_attr(d), d);
+                v
+            }
+        }
+    };
+    match pos {
+        Pos::Struct => {
+            let p = d.pick(3);
+            let shape = pick_shape(d, false);
+            let fields = mk_fields(d, shape, &[pool[p].0.to_string()], "i32");
+            let attrs = marker(d, p, need, false, true);
+            Some(Gen { item: Item { attrs, name: SNAMES[d.pick(SNAMES.len())].into(), generics: String::new(), body: Body::Struct(shape, fields) }, loc: Loc::Container, e2: true })
+        }
+        Pos::Field => {
+            let n = d.range(2, 3);
+            let mut pools = distinct_pools(d, pool.len(), n);
+            let target = d.pick(n);
+            if matches!(need, Need::Types2) && pool[pools[target]].1.len() < 2 {
+                pools[target] = (0..3).find(|p| !pools.contains(p)).unwrap_or(0);
+            }
+            let shape = pick_shape(d, false);
+            let tys: Vec<String> = pools.iter().map(|i| pool[*i].0.to_string()).collect();
+            let mut fields = mk_fields(d, shape, &tys, "i32");
+            let skip_mode = match need {
+                Need::Skip => true,
+                Need::Types2 | Need::List | Need::Marker => false,
+                _ => d.chance(35),
+            };
+            if skip_mode {
+                // as_ref.md "Skipping": only skip attributes; impls for the unmarked fields
+                let mut v = vec![Attr::with(attr, vec![Arg::flag(if d.chance(50) { "ignore" } else { "skip" })])];
+                if need == Need::TwoAttrs {
+                    insert_at(&mut v, foreign_attr(d), d);
+                }
+                fields[target].attrs = v;
+                for i in 0..n {
+                    if i != target && d.chance(30) {
+                        fields[i].attrs = vec![Attr::with(attr, vec![Arg::flag("skip")])];
+                    }
+                }
+            } else {
+                let v = marker(d, pools[target], need, true, true);
+                let fwd = v.iter().any(|a| a.has_flag("forward"));
+                fields[target].attrs = v;
+                if !fwd {
+                    for i in 0..n {
+                        if i != target && d.chance(35) {
+                            fields[i].attrs = marker(d, pools[i], Need::Any, true, false);
+                        }
+                    }
+                }
+            }
+            Some(Gen { item: Item { attrs: vec![], name: SNAMES[d.pick(SNAMES.len())].into(), generics: String::new(), body: Body::Struct(shape, fields) }, loc: Loc::Field(target), e2: true })
+        }
+        _ => None,
+    }
+}
+
+const REPRS: [&str; 6] = ["u8", "i16", "u32", "i64", "u16", "i8"];
+
+/// try_from.md — enum: `#[try_from(repr)]`, the type comes from `#[repr(u/i*)]`
+fn gen_tryfrom(c: &Cell, _pos: Pos, need: Need, d: &mut Dice) -> Option<Gen> {
+    let nv = d.range(1, 4);
+    let off = d.pick(VNAMES.len());
+    let mut next = 0i64;
+    let mut any_discr = false;
+    let mut any_fields = false;
+    let mut vs = vec![];
+    for i in 0..nv {
+        let (vn, sn) = VNAMES[(off + i) % VNAMES.len()];
+        let (shape, fields) = match d.weighted(&[6, 1, 1, 2]) {
+            0 => (Shape::Unit, vec![]),
+            1 => (Shape::Tuple, vec![]),
+            2 => (Shape::Named, vec![]),
+            _ => {
+                any_fields = true;
+                (Shape::Tuple, vec![mk_field(None, "i32", "i32")])
+            }
+        };
+        let discr = if d.chance(35) {
+            next += d.range(0, 3) as i64;
+            any_discr = true;
+            Some(next.to_string())
+        } else {
+            None
+        };
+        next += 1;
+        vs.push(Variant { attrs: vec![], name: vn.into(), snake: sn.into(), shape, fields, discr });
+    }
+    // empty tuple / brace variants and variants with fields need a primitive repr next to explicit discriminants
+    let nonunit = vs.iter().any(|v| v.shape != Shape::Unit);
+    let mut attrs = vec![Attr::with(c.attr, vec![Arg::flag("repr")])];
+    if need == Need::Repr || any_discr && (any_fields || nonunit) || d.chance(50) {
+        insert_at(&mut attrs, Attr::with("repr", vec![Arg::flag(REPRS[d.pick(REPRS.len())])]), d);
+    }
+    if need == Need::TwoAttrs && attrs.len() < 2 || d.chance(15) {
+        insert_at(&mut attrs, foreign_attr(d), d);
+    }
+    Some(Gen { item: Item { attrs, name: ENAMES[d.pick(ENAMES.len())].into(), generics: String::new(), body: Body::Enum(vs) }, loc: Loc::Container, e2: true })
+}
+
+fn flag_subset(d: &mut Dice, all: &[&str]) -> Vec<Arg> {
+    let mut v: Vec<Arg> = all.iter().filter(|_| d.chance(50)).map(|s| Arg::flag(s)).collect();
+    if v.is_empty() {
+        v.push(Arg::flag(all[d.pick(all.len())]));
+    }
+    if v.len() > 1 && d.chance(40) {
+        v.rotate_left(1);
+    }
+    v
+}
+
+/// own attribute (+ a foreign one when two attributes are needed)
+fn own_plus(d: &mut Dice, own: Option<Attr>, need: Need) -> Vec<Attr> {
+    let mut v: Vec<Attr> = own.into_iter().collect();
+    if need == Need::TwoAttrs {
+        insert_at(&mut v, foreign_attr(d), d);
+        if v.len() < 2 {
+            insert_at(&mut v, Attr::raw("allow", "unused"), d);
+        }
+    } else if d.chance(10) {
+        insert_at(&mut v, foreign_attr(d), d);
+    }
+    v
+}
+
+/// error.md — field: `source`, `backtrace`, `not(source)`, `not(backtrace)`, `ignore` (several per attribute,
+/// cf. `#[error(backtrace, source)]` in the doc example); variant: `ignore`
+fn gen_error(c: &Cell, pos: Pos, need: Need, d: &mut Dice, force_struct: bool) -> Option<Gen> {
+    let attr = c.attr;
+    let generic = d.chance(20);
+    let mut e2 = true;
+    let mut used_t = false;
+    // fields of one struct / variant with consistent attributes; `target`: (field index, need)
+    let mut mk = |d: &mut Dice, shape: Shape, n: usize, target: Option<Need>, e2: &mut bool, used_t: &mut bool| -> (Vec<Field>, usize) {
+        let tys: Vec<String> = (0..n)
+            .map(|i| {
+                if generic && !*used_t && i == 0 {
+                    *used_t = true;
+                    "T".to_string()
+                } else {
+                    "Inner".to_string()
+                }
+            })
+            .collect();
+        let mut fields = mk_fields(d, shape, &tys, "Inner");
+        if shape == Shape::Named && d.chance(15) {
+            fields[0].name = Some("source".into());
+        }
+        let t = d.pick(n.max(1));
+        let src = if d.chance(50) { Some(d.pick(n.max(1))) } else { None };
+        let with_bt = d.chance(15);
+        for i in 0..n {
+            let mut args: Vec<Arg> = vec![];
+            if Some(i) == src {
+                args.push(Arg::flag("source"));
+                if with_bt {
+                    // doc example: `#[error(backtrace, source)]`
+                    args.insert(d.pick(2), Arg::flag("backtrace"));
+                }
+            } else {
+                match d.pick(6) {
+                    0 => args.push(Arg::call("not", &["source"])),
+                    1 if !with_bt => args.push(Arg::flag("ignore")),
+                    2 => args.push(Arg::call("not", &["backtrace"])),
+                    3 => {
+                        args.push(Arg::call("not", &["source"]));
+                        args.push(Arg::call("not", &["backtrace"]));
+                    }
+                    _ => {}
+                }
+            }
+            if target.is_some() && i == t && args.is_empty() {
+                args.push(match d.pick(if with_bt { 2 } else { 3 }) {
+                    0 => Arg::call("not", &["source"]),
+                    1 => Arg::call("not", &["backtrace"]),
+                    _ => Arg::flag("ignore"),
+                });
+            }
+            if target == Some(Need::Select) && i == t {
+                // a single selecting / deselecting argument the contradiction can extend
+                args.truncate(1);
+            }
+            if args.iter().any(|a| a.is_flag("backtrace")) {
+                *e2 = false; // `provide()` needs nightly
+            }
+            let own = if args.is_empty() { None } else { Some(Attr::with(attr, args)) };
+            fields[i].attrs = own_plus(d, own, if i == t { target.unwrap_or(Need::Any) } else { Need::Any });
+        }
+        (fields, t)
+    };
+    let generics = if generic { "<T>".to_string() } else { String::new() };
+    let display = Attr::raw("display", "\"e\"");
+    if force_struct || (pos == Pos::Field && d.chance(50)) {
+        let shape = pick_shape(d, false);
+        let n = d.range(1, 3);
+        let (fields, t) = mk(d, shape, n, if pos == Pos::Field { Some(need) } else { None }, &mut e2, &mut used_t);
+        let loc = if pos == Pos::Field { Loc::Field(t) } else { Loc::Container };
+        return Some(Gen { item: Item { attrs: vec![display], name: SNAMES[d.pick(SNAMES.len())].into(), generics, body: Body::Struct(shape, fields) }, loc, e2 });
+    }
+    let nv = d.range(1, 3);
+    let target = d.pick(nv);
+    let off = d.pick(VNAMES.len());
+    let mut vs = vec![];
+    let mut floc = 0;
+    for i in 0..nv {
+        let (vn, sn) = VNAMES[(off + i) % VNAMES.len()];
+        let must_fields = (pos == Pos::Field && i == target) || (generic && !used_t && i + 1 == nv);
+        let shape = pick_shape(d, !must_fields);
+        let n = if shape == Shape::Unit { 0 } else { d.range(1, 3) };
+        let (fields, t) = if n == 0 { (vec![], 0) } else { mk(d, shape, n, if pos == Pos::Field && i == target { Some(need) } else { None }, &mut e2, &mut used_t) };
+        if i == target {
+            floc = t;
+        }
+        let own = if (pos == Pos::Variant && i == target && need == Need::TwoAttrs) || d.chance(25) { Some(Attr::with(attr, vec![Arg::flag("ignore")])) } else { None };
+        let attrs = own_plus(d, own, if pos == Pos::Variant && i == target { need } else { Need::Any });
+        vs.push(Variant { attrs, name: vn.into(), snake: sn.into(), shape, fields, discr: None });
+    }
+    let loc = if pos == Pos::Variant { Loc::Variant(target) } else { Loc::VField(target, floc) };
+    Some(Gen { item: Item { attrs: vec![display], name: ENAMES[d.pick(ENAMES.len())].into(), generics, body: Body::Enum(vs) }, loc, e2 })
+}
+
+/// adds for every own attribute of the item the same attribute under the companion name
+/// (`#[deref(..)]` <-> `#[deref_mut(..)]`, `#[index]` <-> `#[index_mut]`: doc examples of deref_mut.md / index_mut.md)
+fn mirror(item: &mut Item, own: &str, other: &str, d: &mut Dice) {
+    let dup = |v: &mut Vec<Attr>, d: &mut Dice| {
+        let mut i = 0;
+        while i < v.len() {
+            if v[i].name == own {
+                let mut m = v[i].clone();
+                m.name = other.to_string();
+                let at = if d.chance(50) { i } else { i + 1 };
+                v.insert(at, m);
+                i += 1;
+            }
+            i += 1;
+        }
+    };
+    dup(&mut item.attrs, d);
+    if let Body::Struct(_, fs) = &mut item.body {
+        for f in fs {
+            dup(&mut f.attrs, d);
+        }
+    }
+}
+
+/// deref.md, deref_mut.md (struct: `forward`; field: empty | `ignore` | `forward`), index.md, index_mut.md
+/// (field: empty | `ignore`), into_iterator.md (struct / field: `owned`, `ref`, `ref_mut`; field: empty | `ignore`)
+fn gen_single_field(c: &Cell, pos: Pos, need: Need, d: &mut Dice) -> Option<Gen> {
+    let attr = c.attr;
+    let fam = c.fam;
+    let generic = d.chance(20);
+    let (fty, fval): (String, String) = match fam {
+        Fam::Deref => (if generic { "Box<T>".into() } else { "Box<i32>".into() }, "Box::new(5i32)".into()),
+        _ => (if generic { "Vec<T>".into() } else { "Vec<i32>".into() }, "vec![3i32, 4]".into()),
+    };
+    let generics = if generic { "<T>".to_string() } else { String::new() };
+    let others = ["bool", "u8", "String"];
+    // selecting arguments of this family
+    let select = |d: &mut Dice, list: bool| -> Option<Vec<Arg>> {
+        match fam {
+            Fam::Deref => {
+                if list || d.chance(50) {
+                    Some(vec![Arg::flag("forward")])
+                } else {
+                    None
+                }
+            }
+            Fam::IntoIter => {
+                if list || d.chance(60) {
+                    Some(flag_subset(d, &["owned", "ref", "ref_mut"]))
+                } else {
+                    None
+                }
+            }
+            _ => None,
+        }
+    };
+    let mk_attr = |args: Option<Vec<Arg>>| Attr { name: attr.to_string(), args, trailing: false };
+    let mut item;
+    let loc;
+    match pos {
+        Pos::Struct => {
+            // struct-level selector: one field (deref.md / into_iterator.md show the struct-level form on newtypes only;
+            // with more fields any struct-level attribute enables every field)
+            let n = 1;
+            let shape = pick_shape(d, false);
+            let main = d.pick(n);
+            let tys: Vec<String> = (0..n).map(|i| if i == main { fty.clone() } else { others[d.pick(others.len())].to_string() }).collect();
+            let mut fields = mk_fields(d, shape, &tys, "i32");
+            fields[main].val = fval.clone();
+            if n > 1 {
+                fields[main].attrs = vec![mk_attr(None)];
+            }
+            let list = matches!(need, Need::List | Need::TwoAttrs | Need::Select) || d.chance(60);
+            let own = select(d, list).map(|a| mk_attr(Some(a)));
+            let attrs = own_plus(d, own, need);
+            item = Item { attrs, name: SNAMES[d.pick(SNAMES.len())].into(), generics, body: Body::Struct(shape, fields) };
+            loc = Loc::Container;
+        }
+        _ => {
+            let n = d.range(1, 3);
+            let shape = pick_shape(d, false);
+            let main = d.pick(n);
+            let tys: Vec<String> = (0..n).map(|i| if i == main { fty.clone() } else { others[d.pick(others.len())].to_string() }).collect();
+            let mut fields = mk_fields(d, shape, &tys, "i32");
+            fields[main].val = fval.clone();
+            let ignore_mode = n >= 2 && match need {
+                Need::List => false,
+                Need::Select => d.chance(50),
+                _ => d.chance(35),
+            };
+            let t;
+            if ignore_mode {
+                // every other field is ignored; the target is one of them
+                let cands: Vec<usize> = (0..n).filter(|i| *i != main).collect();
+                t = cands[d.pick(cands.len())];
+                for i in cands {
+                    fields[i].attrs = own_plus(d, Some(mk_attr(Some(vec![Arg::flag("ignore")]))), if i == t { need } else { Need::Any });
+                }
+            } else {
+                t = main;
+                let list = matches!(need, Need::List | Need::Select) || (need == Need::TwoAttrs && fam != Fam::Index && d.chance(50));
+                let own = match select(d, list) {
+                    // the base of a contradiction selects with exactly one argument (see `contradict`)
+                    Some(mut a) => {
+                        if need == Need::Select {
+                            a.truncate(1);
+                        }
+                        Some(mk_attr(Some(a)))
+                    }
+                    None if n > 1 || need != Need::Any || d.chance(60) => Some(mk_attr(None)),
+                    None => None,
+                };
+                fields[t].attrs = own_plus(d, own, need);
+            }
+            item = Item { attrs: vec![], name: SNAMES[d.pick(SNAMES.len())].into(), generics, body: Body::Struct(shape, fields) };
+            loc = Loc::Field(t);
+        }
+    }
+    match c.derive {
+        "DerefMut" => mirror(&mut item, "deref_mut", "deref", d),
+        "IndexMut" => mirror(&mut item, "index_mut", "index", d),
+        "Deref" if d.chance(40) => mirror(&mut item, "deref", "deref_mut", d),
+        "Index" if d.chance(40) => mirror(&mut item, "index", "index_mut", d),
+        _ => {}
+    }
+    Some(Gen { item, loc, e2: true })
+}
+
+/// is_variant.md (variant: `ignore`), unwrap.md / try_unwrap.md (enum, variant: `ref`, `ref_mut`; variant: `ignore`),
+/// try_into.md (enum, variant: `owned`, `ref`, `ref_mut`; variant: empty | `ignore`)
+fn gen_variant_fam(c: &Cell, pos: Pos, need: Need, d: &mut Dice) -> Option<Gen> {
+    let attr = c.attr;
+    let fam = c.fam;
+    let flags: &[&str] = match fam {
+        Fam::Unwrap => &["ref", "ref_mut"],
+        Fam::TryInto => &["owned", "ref", "ref_mut"],
+        _ => &[],
+    };
+    let mk_attr = |args: Option<Vec<Arg>>| Attr { name: attr.to_string(), args, trailing: false };
+    let nv = d.range(1, 4);
+    let target = d.pick(nv);
+    let off = d.pick(VNAMES.len());
+    let ftys = ["i32", "String", "bool", "u8"];
+    let mut vs = vec![];
+    for i in 0..nv {
+        let (vn, sn) = VNAMES[(off + i) % VNAMES.len()];
+        let shape = match fam {
+            Fam::Unwrap => [Shape::Tuple, Shape::Unit][d.weighted(&[3, 1])],
+            _ => pick_shape(d, true),
+        };
+        let n = if shape == Shape::Unit { 0 } else { d.range(1, 2) };
+        let tys: Vec<String> = (0..n).map(|_| ftys[d.pick(ftys.len())].to_string()).collect();
+        let fields = mk_fields(d, shape, &tys, "i32");
+        let is_t = pos == Pos::Variant && i == target;
+        let nd = if is_t { need } else { Need::Any };
+        let own = if is_t {
+            match need {
+                Need::List => Some(mk_attr(Some(flag_subset(d, flags)))),
+                Need::Select => Some(mk_attr(Some(if d.chance(50) { vec![Arg::flag("ignore")] } else { vec![Arg::flag(flags[d.pick(flags.len())])] }))),
+                _ => match d.pick(4) {
+                    0 if !flags.is_empty() => Some(mk_attr(Some(flag_subset(d, flags)))),
+                    1 if fam == Fam::TryInto => Some(mk_attr(None)),
+                    2 if need != Need::TwoAttrs => None,
+                    _ => Some(mk_attr(Some(vec![Arg::flag("ignore")]))),
+                },
+            }
+        } else if d.chance(20) {
+            Some(mk_attr(Some(vec![Arg::flag("ignore")])))
+        } else {
+            None
+        };
+        let attrs = own_plus(d, own, nd);
+        vs.push(Variant { attrs, name: vn.into(), snake: sn.into(), shape, fields, discr: None });
+    }
+    let own = if !flags.is_empty() && (pos == Pos::Enum || d.chance(30)) {
+        if pos == Pos::Enum && !matches!(need, Need::List | Need::TwoAttrs) && d.chance(25) {
+            None
+        } else {
+            Some(mk_attr(Some(flag_subset(d, flags))))
+        }
+    } else {
+        None
+    };
+    let attrs = own_plus(d, own, if pos == Pos::Enum { need } else { Need::Any });
+    let loc = if pos == Pos::Enum { Loc::Container } else { Loc::Variant(target) };
+    Some(Gen { item: Item { attrs, name: ENAMES[d.pick(ENAMES.len())].into(), generics: String::new(), body: Body::Enum(vs) }, loc, e2: true })
+}
+
+/// mul.md / mul_assign.md — struct: `forward`
+fn gen_mul(c: &Cell, _pos: Pos, need: Need, d: &mut Dice) -> Option<Gen> {
+    let shape = pick_shape(d, false);
+    let n = d.range(1, 3);
+    let tys: Vec<String> = (0..n).map(|_| "i32".to_string()).collect();
+    let fields = mk_fields(d, shape, &tys, "i32");
+    let own = if need == Need::TwoAttrs || d.chance(60) { Some(Attr::with(c.attr, vec![Arg::flag("forward")])) } else { None };
+    let attrs = own_plus(d, own, need);
+    Some(Gen { item: Item { attrs, name: SNAMES[d.pick(SNAMES.len())].into(), generics: String::new(), body: Body::Struct(shape, fields) }, loc: Loc::Container, e2: true })
+}
+
+fn gen_item(c: &Cell, pos: Pos, need: Need, d: &mut Dice) -> Option<Gen> {
+    match c.fam {
+        Fam::Display => gen_display(c, pos, need, d),
+        Fam::Debug => gen_debug(c, pos, need, d),
+        Fam::From => gen_from(c, pos, need, d),
+        Fam::Into => gen_into(c, pos, need, d),
+        Fam::AsRef => gen_asref(c, pos, need, d),
+        Fam::TryFrom => gen_tryfrom(c, pos, need, d),
+        Fam::Error => gen_error(c, pos, need, d, false),
+        Fam::Deref | Fam::Index | Fam::IntoIter => gen_single_field(c, pos, need, d),
+        Fam::IsVariant | Fam::Unwrap | Fam::TryInto => gen_variant_fam(c, pos, need, d),
+        Fam::Mul => gen_mul(c, pos, need, d),
+    }
+}
+
+// ------------------------------------------------------------------------------------------------
+// rewrites and corruptions
+
+struct Applied {
+    item: Item,
+    /// sub-form of the kind (label)
+    detail: String,
+    /// legacy-parser contradictions inside one attribute: the item the recorded defect predicts the
+    /// expansion to be equal to (`ignore` wins / the later of `X`, `not(X)` wins)
+    predicted: Option<(Item, &'static str)>,
+}
+
+const NONSENSE: [&str; 8] = ["foo", "skipp", "forwards", "bounded", "renameall", "sorce", "unknown_arg", "typs"];
+const VOCAB: [&str; 13] = ["skip", "ignore", "forward", "owned", "ref", "ref_mut", "source", "backtrace", "bound", "bounds", "rename_all", "repr", "types"];
+
+/// every word the family's attribute language knows at any position (documentation and code)
+fn known_words(f: Fam) -> &'static [&'static str] {
+    match f {
+        Fam::Display => &["bound", "bounds", "rename_all"],
+        Fam::Debug => &["bound", "bounds", "skip", "ignore"],
+        Fam::TryFrom => &["repr"],
+        Fam::Error => &["ignore", "source", "backtrace"],
+        Fam::Deref => &["ignore", "forward"],
+        Fam::Index | Fam::IsVariant => &["ignore"],
+        Fam::IntoIter | Fam::Unwrap | Fam::TryInto => &["ignore", "owned", "ref", "ref_mut"],
+        Fam::Mul => &["forward"],
+        Fam::From | Fam::Into | Fam::AsRef => &[],
+    }
+}
+
+fn unknown_word(f: Fam, d: &mut Dice) -> String {
+    if d.chance(50) {
+        NONSENSE[d.pick(NONSENSE.len())].to_string()
+    } else {
+        let cands: Vec<&str> = VOCAB.iter().copied().filter(|w| !known_words(f).contains(w)).collect();
+        cands[d.pick(cands.len())].to_string()
+    }
+}
+
+fn own_indices(attrs: &[Attr], name: &str) -> Vec<usize> {
+    attrs.iter().enumerate().filter(|(_, a)| a.name == name).map(|(i, _)| i).collect()
+}
+
+fn single_flag(a: &Attr) -> Option<&str> {
+    match a.args() {
+        [Arg::Flag(s)] => Some(s.as_str()),
+        _ => None,
+    }
+}
+
+/// the selector that contradicts `x` on the same item (`X` <-> `not(X)`, `ignore` <-> a positive selector)
+fn contradict(f: Fam, x: &Arg, d: &mut Dice) -> Option<Arg> {
+    let selectors: &[&str] = match f {
+        Fam::Error => &["source", "backtrace"],
+        Fam::Deref => &["forward"],
+        Fam::IntoIter | Fam::TryInto => &["owned", "ref", "ref_mut"],
+        Fam::Unwrap => &["ref", "ref_mut"],
+        _ => return None,
+    };
+    Some(match x {
+        Arg::Flag(s) if s == "ignore" => Arg::flag(selectors[d.pick(selectors.len())]),
+        Arg::Flag(s) if f == Fam::Error && d.chance(60) => Arg::call("not", &[s.as_str()]),
+        Arg::Flag(_) => Arg::flag("ignore"),
+        Arg::Call(h, inner, _) if h == "not" && inner.len() == 1 => Arg::flag(&inner[0]),
+        _ => return None,
+    })
+}
+
+fn struct_to_enum(item: &Item) -> Option<Item> {
+    let Body::Struct(shape, fields) = &item.body else { return None };
+    let mut it = item.clone();
+    it.body = Body::Enum(vec![Variant { attrs: vec![], name: "A".into(), snake: "a".into(), shape: *shape, fields: fields.clone(), discr: None }]);
+    Some(it)
+}
+
+fn apply(c: &Cell, g: &Gen, d: &mut Dice) -> Option<Applied> {
+    let attr = c.attr;
+    let mut item = g.item.clone();
+    let loc = g.loc;
+    let done = |item: Item, detail: &str| Some(Applied { item, detail: detail.to_string(), predicted: None });
+    match c.kind {
+        Kind::RwSkip => {
+            let v = item.attrs_at(loc)?;
+            let i = own_indices(v, attr).into_iter().find(|i| matches!(single_flag(&v[*i]), Some("skip" | "ignore")))?;
+            let new = if v[i].has_flag("skip") { "ignore" } else { "skip" };
+            v[i].args = Some(vec![Arg::flag(new)]);
+            done(item, new)
+        }
+        Kind::RwBound => {
+            let v = item.attrs_at(loc)?;
+            for i in own_indices(v, attr) {
+                if let Some(args) = &mut v[i].args {
+                    for a in args.iter_mut() {
+                        if let Arg::Call(h, _, _) = a {
+                            if h == "bound" || h == "bounds" {
+                                *h = if h == "bound" { "bounds".into() } else { "bound".into() };
+                                let det = h.clone();
+                                return done(item, &det);
+                            }
+                        }
+                    }
+                }
+            }
+            None
+        }
+        Kind::RwNTypes => {
+            let v = item.attrs_at(loc)?;
+            for i in own_indices(v, attr) {
+                let args = v[i].args().to_vec();
+                if args.len() >= 2 && args.iter().all(|a| matches!(a, Arg::Ty(_))) {
+                    let split: Vec<Attr> = args.into_iter().map(|a| Attr::with(attr, vec![a])).collect();
+                    v.splice(i..=i, split);
+                    return done(item, "top-level types");
+                }
+                // `owned(a, b)` -> `#[x(owned(a))] #[x(owned(b), rest..)]`
+                if let Some(j) = args.iter().position(|a| matches!(a, Arg::Call(h, inner, _) if ["owned", "ref", "ref_mut"].contains(&h.as_str()) && inner.len() >= 2)) {
+                    let Arg::Call(h, inner, _) = &args[j] else { unreachable!() };
+                    let mut split: Vec<Attr> = vec![];
+                    for (k, t) in inner.iter().enumerate() {
+                        let mut a: Vec<Arg> = if k + 1 == inner.len() { args.clone() } else { vec![args[j].clone()] };
+                        let jj = if k + 1 == inner.len() { j } else { 0 };
+                        a[jj] = Arg::Call(h.clone(), vec![t.clone()], false);
+                        split.push(Attr::with(attr, a));
+                    }
+                    v.splice(i..=i, split);
+                    return done(item, "wrapped types");
+                }
+            }
+            None
+        }
+        Kind::RwTrail => {
+            let v = item.attrs_at(loc)?;
+            let typed_flag = |a: &Attr| matches!(single_flag(a), Some("skip" | "ignore" | "forward" | "repr"));
+            let mut cands: Vec<(usize, Option<usize>)> = vec![];
+            for i in own_indices(v, attr) {
+                let a = &v[i];
+                let args = a.args();
+                if args.is_empty() {
+                    continue;
+                }
+                let top = if is_legacy(c.fam) {
+                    args.iter().all(|x| matches!(x, Arg::Flag(_) | Arg::Call(..)))
+                } else {
+                    !typed_flag(a) && (args.iter().all(|x| matches!(x, Arg::Ty(_))) || a.has_lit() || (c.fam == Fam::Into && args.iter().all(|x| matches!(x, Arg::Flag(_) | Arg::Call(..) | Arg::Ty(_)))))
+                };
+                if top {
+                    cands.push((i, None));
+                }
+                for (j, x) in args.iter().enumerate() {
+                    if let Arg::Call(h, inner, _) = x {
+                        if ["bound", "bounds", "owned", "ref", "ref_mut"].contains(&h.as_str()) && !inner.is_empty() {
+                            cands.push((i, Some(j)));
+                        }
+                    }
+                }
+            }
+            if cands.is_empty() {
+                return None;
+            }
+            let (i, j) = cands[d.pick(cands.len())];
+            match j {
+                None => {
+                    v[i].trailing = true;
+                    done(item, "top-level list")
+                }
+                Some(j) => {
+                    if let Some(Arg::Call(_, _, tr)) = v[i].args.as_mut().and_then(|a| a.get_mut(j)) {
+                        *tr = true;
+                    }
+                    done(item, "nested list")
+                }
+            }
+        }
+        Kind::RwPerm => {
+            let v = item.attrs_at(loc)?;
+            if v.len() < 2 {
+                return None;
+            }
+            let before = render_attrs(v, " ");
+            let k = 1 + d.pick(v.len() - 1);
+            v.rotate_left(k);
+            if v.len() > 2 && d.chance(50) {
+                v.swap(0, 1);
+            }
+            if render_attrs(v, " ") == before {
+                return None;
+            }
+            let own = own_indices(v, attr).len();
+            let det = if own >= 2 { "own attributes" } else { "own and foreign attributes" };
+            done(item, det)
+        }
+        Kind::CoUnknown => {
+            let w = unknown_word(c.fam, d);
+            let v = item.attrs_at(loc)?;
+            let own = own_indices(v, attr);
+            match c.fam {
+                Fam::Display | Fam::Debug => {
+                    let bound_ok = c.fam == Fam::Display || matches!(c.pos, Pos::Struct | Pos::Enum);
+                    let lit_at = own.iter().copied().find(|i| v[*i].has_lit());
+                    let form = d.pick(4);
+                    let (new, det): (Attr, &str) = match form {
+                        0 => (Attr::raw(attr, &w), "sole argument"),
+                        1 if bound_ok => (Attr::raw(attr, &format!("{w}(T: Clone)")), "bound-like list"),
+                        2 => (Attr::raw(attr, &format!("{w} = \"snake_case\"")), "name-value"),
+                        _ => match lit_at {
+                            Some(i) => {
+                                let mut a = v[i].clone();
+                                a.args.as_mut().unwrap().insert(0, Arg::Raw(w.clone()));
+                                v[i] = a;
+                                return done(item, "before the literal");
+                            }
+                            None => (Attr::raw(attr, &w), "sole argument"),
+                        },
+                    };
+                    // replace an own non-literal attribute, or add
+                    let repl = own.iter().copied().find(|i| !v[*i].has_lit());
+                    match repl {
+                        Some(i) if d.chance(50) => v[i] = new,
+                        _ => insert_at(v, new, d),
+                    }
+                    done(item, det)
+                }
+                Fam::TryFrom => {
+                    let i = *own.first()?;
+                    let (args, det): (Vec<Arg>, &str) = match d.pick(3) {
+                        0 => (vec![Arg::Raw(w)], "instead of repr"),
+                        1 => (vec![Arg::Raw(w), Arg::flag("repr")], "before repr"),
+                        _ => (vec![Arg::flag("repr"), Arg::Raw(w)], "after repr"),
+                    };
+                    v[i].args = Some(args);
+                    done(item, det)
+                }
+                _ => {
+                    // legacy parser families: one own attribute per item at most
+                    let unk_not = c.fam == Fam::Error && c.pos == Pos::Field && d.chance(20);
+                    let new_arg = if unk_not {
+                        Arg::Call("not".into(), vec![w.clone()], false)
+                    } else if d.chance(20) {
+                        Arg::Call(w.clone(), vec!["x".into()], false)
+                    } else {
+                        Arg::Raw(w.clone())
+                    };
+                    match own.first() {
+                        Some(&i) => {
+                            let mut args = v[i].args().to_vec();
+                            let det = match d.pick(3) {
+                                0 => {
+                                    args = vec![new_arg];
+                                    "sole argument"
+                                }
+                                1 => {
+                                    args.insert(0, new_arg);
+                                    "prepended"
+                                }
+                                _ => {
+                                    args.push(new_arg);
+                                    "appended"
+                                }
+                            };
+                            v[i].args = Some(args);
+                            done(item, det)
+                        }
+                        None => {
+                            insert_at(v, Attr::with(attr, vec![new_arg]), d);
+                            done(item, "new attribute")
+                        }
+                    }
+                }
+            }
+        }
+        Kind::CoDupLit => {
+            let v = item.attrs_at(loc)?;
+            let i = own_indices(v, attr).into_iter().find(|i| v[*i].has_lit())?;
+            let (dup, det) = if d.chance(50) { (v[i].clone(), "same literal twice") } else { (Attr::with(attr, vec![Arg::Lit(lit_tok("second"))]), "two different literals") };
+            insert_at(v, dup, d);
+            done(item, det)
+        }
+        Kind::CoDupRename => {
+            let v = item.attrs_at(loc)?;
+            let i = own_indices(v, attr).into_iter().find(|i| v[*i].args().iter().any(|a| matches!(a, Arg::NameValue(..))))?;
+            let (dup, det) = if d.chance(50) { (v[i].clone(), "same casing twice") } else { (Attr::with(attr, vec![gen_rename(d)]), "two casings") };
+            insert_at(v, dup, d);
+            done(item, det)
+        }
+        Kind::CoDupTryFrom => {
+            let v = item.attrs_at(loc)?;
+            insert_at(v, Attr::with(attr, vec![Arg::flag("repr")]), d);
+            done(item, "try_from(repr) twice")
+        }
+        Kind::CoDupRepr => {
+            let v = item.attrs_at(loc)?;
+            let i = own_indices(v, "repr").into_iter().next()?;
+            let (dup, det) = if d.chance(40) { (v[i].clone(), "same repr twice") } else { (Attr::with("repr", vec![Arg::flag(REPRS[d.pick(REPRS.len())])]), "two reprs") };
+            insert_at(v, dup, d);
+            done(item, det)
+        }
+        Kind::CoKind => match (c.fam, c.pos) {
+            (Fam::AsRef, Pos::Struct) => {
+                // as_ref.md: struct-level attribute only for "Newtypes and Structs with One Field"
+                let Body::Struct(shape, fields) = &mut item.body else { return None };
+                if d.chance(70) {
+                    let mut f = mk_field(if *shape == Shape::Named { Some("extra") } else { None }, "bool", "i32");
+                    f.attrs = vec![];
+                    let at = d.pick(fields.len() + 1);
+                    fields.insert(at, f);
+                    done(item, "struct-level attribute on a multi-field struct")
+                } else {
+                    *shape = Shape::Unit;
+                    fields.clear();
+                    done(item, "struct-level attribute on a unit struct")
+                }
+            }
+            (Fam::AsRef | Fam::Into | Fam::Deref | Fam::IntoIter, Pos::Enum) => done(struct_to_enum(&item)?, "attribute on an enum"),
+            (Fam::TryFrom, Pos::Struct) => {
+                item.attrs.retain(|a| a.name != "repr");
+                item.body = if d.chance(50) { Body::Struct(Shape::Unit, vec![]) } else { Body::Struct(Shape::Tuple, vec![mk_field(None, "i32", "i32")]) };
+                done(item, "try_from(repr) on a struct")
+            }
+            (Fam::Unwrap | Fam::TryInto, Pos::Struct) => {
+                let Body::Enum(vs) = &item.body else { return None };
+                let v = &vs[d.pick(vs.len())];
+                let mut fields = v.fields.clone();
+                for f in fields.iter_mut() {
+                    f.attrs.clear();
+                }
+                item.body = Body::Struct(v.shape, fields);
+                done(item, "enum-level attribute on a struct")
+            }
+            (Fam::Error, Pos::Variant | Pos::Struct) => {
+                // error.md: selectors are for fields; a variant / struct only takes `ignore`
+                let sel = match d.pick(4) {
+                    0 => Arg::flag("source"),
+                    1 => Arg::flag("backtrace"),
+                    2 => Arg::call("not", &["source"]),
+                    _ => Arg::call("not", &["backtrace"]),
+                };
+                let v = item.attrs_at(loc)?;
+                match own_indices(v, attr).first() {
+                    Some(&i) => v[i].args = Some(vec![sel]),
+                    None => insert_at(v, Attr::with(attr, vec![sel]), d),
+                }
+                done(item, "field selector on a variant / struct")
+            }
+            (Fam::Debug, Pos::Enum) => {
+                let lit = gen_lit(d, &[], LitStyle::Plain, false);
+                insert_at(&mut item.attrs, Attr::with(attr, lit), d);
+                done(item, "format literal on an enum")
+            }
+            _ => None,
+        },
+        Kind::CoLegacyFmt => {
+            let v = item.attrs_at(loc)?;
+            let own = own_indices(v, attr);
+            match own.iter().copied().find(|i| v[*i].has_lit()) {
+                Some(i) => {
+                    let mut parts = vec![];
+                    for a in v[i].args() {
+                        match a {
+                            Arg::Lit(l) => parts.push(format!("fmt = {l}")),
+                            Arg::Expr(e) => {
+                                let simple = e.chars().all(|ch| ch.is_alphanumeric() || ch == '_');
+                                parts.push(if simple && d.chance(50) { e.clone() } else { lit_tok(e) });
+                            }
+                            other => parts.push(other.render()),
+                        }
+                    }
+                    v[i] = Attr::raw(attr, &parts.join(", "));
+                    done(item, "existing literal respelled")
+                }
+                None => {
+                    let body = ["fmt = \"legacy\"", "fmt = \"{}\", \"1\"", "fmt = \"{}\", x"][d.pick(3)];
+                    insert_at(v, Attr::raw(attr, body), d);
+                    done(item, "new attribute")
+                }
+            }
+        }
+        Kind::CoLegacyBound => {
+            let v = item.attrs_at(loc)?;
+            let own = own_indices(v, attr);
+            match own.iter().copied().find(|i| v[*i].has_call(&["bound", "bounds"])) {
+                Some(i) => {
+                    let preds = match &v[i].args()[0] {
+                        Arg::Call(_, inner, _) => inner.join(", "),
+                        _ => "T: Clone".into(),
+                    };
+                    v[i] = Attr::raw(attr, &format!("bound = {}", lit_tok(&preds)));
+                    done(item, "existing bound respelled")
+                }
+                None => {
+                    let p = if item.generics.is_empty() { "i32: Clone" } else { "T: Clone" };
+                    let v = item.attrs_at(loc)?;
+                    insert_at(v, Attr::raw(attr, &format!("bound = {}", lit_tok(p))), d);
+                    done(item, "new attribute")
+                }
+            }
+        }
+        Kind::CoLegacyTypes => {
+            let v = item.attrs_at(loc)?;
+            let own = own_indices(v, attr);
+            let tys = ["i32", "i64", "u8", "String"];
+            let t1 = tys[d.pick(tys.len())];
+            let t2 = tys[d.pick(tys.len())];
+            let list = match d.pick(3) {
+                0 => t1.to_string(),
+                1 => format!("{t1}, {t2}"),
+                _ => lit_tok(t1),
+            };
+            let (body, det) = if c.fam == Fam::Into {
+                match d.pick(4) {
+                    0 => (format!("types({list})"), "types(..)"),
+                    1 => (format!("owned(types({list}))"), "owned(types(..))"),
+                    2 => (format!("ref(types({list}))"), "ref(types(..))"),
+                    _ => (format!("owned, ref, types({list})"), "owned, ref, types(..)"),
+                }
+            } else {
+                (format!("types({list})"), "types(..)")
+            };
+            match own.first() {
+                Some(&i) if !(c.fam == Fam::Into && matches!(single_flag(&v[i]), Some("skip" | "ignore"))) => v[i] = Attr::raw(attr, &body),
+                _ => insert_at(v, Attr::raw(attr, &body), d),
+            }
+            done(item, det)
+        }
+        Kind::CoContra => match c.fam {
+            Fam::AsRef => {
+                let skip = Attr::with(attr, vec![Arg::flag(if d.chance(50) { "skip" } else { "ignore" })]);
+                let Body::Struct(_, fields) = &mut item.body else { return None };
+                let Loc::Field(t) = loc else { return None };
+                if d.chance(60) || fields.len() < 2 {
+                    insert_at(&mut fields[t].attrs, skip, d);
+                    done(item, "skip and marker on the same field")
+                } else {
+                    // as_ref.md "Skipping": skip mode and marker mode exclude each other within a struct
+                    let others: Vec<usize> = (0..fields.len()).filter(|i| *i != t && own_indices(&fields[*i].attrs, attr).is_empty()).collect();
+                    let o = *others.get(d.pick(others.len().max(1)))?;
+                    fields[o].attrs.push(skip);
+                    done(item, "skip on one field, marker on another")
+                }
+            }
+            Fam::From => {
+                let v = item.attrs_at(loc)?;
+                insert_at(v, Attr::with(attr, vec![Arg::flag(if d.chance(50) { "skip" } else { "ignore" })]), d);
+                done(item, "skip and marker on the same variant")
+            }
+            Fam::Debug if c.pos == Pos::Field => {
+                let v = item.attrs_at(loc)?;
+                let i = own_indices(v, attr).into_iter().find(|i| matches!(single_flag(&v[*i]), Some("skip" | "ignore")))?;
+                if d.chance(60) {
+                    insert_at(v, Attr::with(attr, vec![Arg::Lit(lit_tok("shown"))]), d);
+                    done(item, "skip and literal on the same field (two attributes)")
+                } else {
+                    let s = v[i].args()[0].clone();
+                    v[i].args = Some(vec![s, Arg::Lit(lit_tok("shown"))]);
+                    done(item, "skip and literal on the same field (one attribute)")
+                }
+            }
+            Fam::Debug => {
+                let v = item.attrs_at(loc)?;
+                insert_at(v, Attr::with(attr, vec![Arg::Lit(lit_tok("whole"))]), d);
+                done(item, "container literal and field literal")
+            }
+            _ => {
+                let v = item.attrs_at(loc)?;
+                let i = *own_indices(v, attr).first()?;
+                let args = v[i].args().to_vec();
+                if args.len() != 1 {
+                    return None;
+                }
+                let x = args[0].clone();
+                let y = contradict(c.fam, &x, d)?;
+                if d.chance(25) {
+                    // two attributes
+                    let at = if d.chance(50) { i } else { i + 1 };
+                    v.insert(at, Attr::with(attr, vec![y]));
+                    return done(item, "two attributes");
+                }
+                let order = if d.chance(50) { vec![x.clone(), y.clone()] } else { vec![y.clone(), x.clone()] };
+                let has_ignore = order.iter().any(|a| a.is_flag("ignore"));
+                let (reduced, model): (Arg, &'static str) = if has_ignore { (Arg::flag("ignore"), "c17-legacy-ignore-with-selector") } else { (order[1].clone(), "c17-legacy-x-and-not-x") };
+                v[i].args = Some(order);
+                let det = if has_ignore { "ignore + selector in one attribute" } else { "X + not(X) in one attribute" };
+                let mut pred = item.clone();
+                pred.attrs_at(loc)?[i].args = Some(vec![reduced]);
+                Some(Applied { item, detail: det.to_string(), predicted: Some((pred, model)) })
+            }
+        },
+    }
+}
+
+// ------------------------------------------------------------------------------------------------
+// cases and the in-process oracle
+
+#[derive(Clone, Debug)]
+struct E2Src {
+    /// module body of the control (base item + probe): must compile, otherwise the generator is at fault
+    control: String,
+    /// module body of the case proper: both spellings + comparison (rewrite) / the corrupted item (corruption)
+    case: String,
+}
+
+#[derive(Clone, Debug)]
+struct Case {
+    cell: Cell,
+    base: String,
+    variant: String,
+    detail: String,
+    predicted: Option<(String, &'static str)>,
+    e2: Option<E2Src>,
+}
+
+/// position the *base* item is generated for (differs from the cell's position for `co:item-kind`,
+/// whose position names the item kind the attribute is moved to)
+fn base_pos(c: &Cell) -> Pos {
+    if c.kind != Kind::CoKind {
+        return c.pos;
+    }
+    match (c.fam, c.pos) {
+        (Fam::AsRef | Fam::Into | Fam::Deref | Fam::IntoIter, Pos::Enum) => Pos::Struct,
+        (Fam::TryFrom | Fam::Unwrap | Fam::TryInto, Pos::Struct) => Pos::Enum,
+        _ => c.pos,
+    }
+}
+
+fn build_case(c: &Cell, d: &mut Dice) -> Option<Case> {
+    let need = need_of(c);
+    let g = if c.fam == Fam::Error && c.kind == Kind::CoKind && c.pos == Pos::Struct { gen_error(c, Pos::Struct, need, d, true)? } else { gen_item(c, base_pos(c), need, d)? };
+    let a = apply(c, &g, d)?;
+    let e2 = if g.e2 { Some(render_e2(c, &g.item, &a.item, g.loc)) } else { None };
+    Some(Case {
+        cell: *c,
+        base: g.item.render(),
+        variant: a.item.render(),
+        detail: a.detail,
+        predicted: a.predicted.map(|(i, m)| (i.render(), m)),
+        e2,
+    })
+}
+
+/// expansion with the top-level items sorted (impl order is not part of the behaviour)
+fn norm_ts(ts: &proc_macro2::TokenStream) -> String {
+    match syn::parse2::<syn::File>(ts.clone()) {
+        Ok(f) => {
+            let mut v: Vec<String> = f.items.iter().map(|i| tok::ts_string(i)).collect();
+            v.sort();
+            v.join("\n")
+        }
+        Err(_) => tok::norm(&ts.to_string()),
+    }
+}
+
+/// removes a comma that is directly followed by another comma or a closing parenthesis
+fn collapse_commas(s: &str) -> String {
+    let mut cur = s.to_string();
+    loop {
+        let next = cur.replace(" , ,", " ,").replace(" ,)", ")");
+        if next == cur {
+            return cur;
+        }
+        cur = next;
+    }
+}
+
+#[derive(Debug)]
+enum Verdict {
+    Pass(&'static str),
+    /// the generator's base item is not accepted: not a case of the domain
+    GeneratorReject(String),
+    Bad { what: String, expected: String, observed: String, sig: Option<String> },
+}
+
+fn eval_e1(derive: &str, rewrite: bool, base: &str, variant: &str, predicted: Option<(&str, &str)>) -> Verdict {
+    let Some(dv) = Derive::by_name(derive) else { return Verdict::GeneratorReject(format!("unknown derive {derive}")) };
+    let parse = |s: &str| syn::parse_str::<syn::DeriveInput>(s).map_err(|e| format!("item does not parse: {e}: {s}"));
+    let (b, v) = match (parse(base), parse(variant)) {
+        (Ok(b), Ok(v)) => (b, v),
+        (Err(e), _) | (_, Err(e)) => return Verdict::GeneratorReject(e),
+    };
+    let ob = match dm::expand(dv, &b) {
+        Outcome::Ok(ts) => ts,
+        Outcome::Err(e) => return Verdict::GeneratorReject(format!("base item rejected: {e}")),
+        Outcome::Panic(p) => return Verdict::GeneratorReject(format!("base item panics: {}", p.msg)),
+    };
+    let ov = dm::expand(dv, &v);
+    if rewrite {
+        return match ov {
+            Outcome::Ok(ts) => {
+                let (x, y) = (norm_ts(&ob), norm_ts(&ts));
+                if x == y {
+                    Verdict::Pass("equal")
+                } else {
+                    // defect model of the recorded finding: the two expansions differ only by an empty argument slot
+                    // (`"lit" , ,` / `"lit" ,)`): the comma after the literal is re-emitted although no argument follows
+                    let sig = if collapse_commas(&x) == collapse_commas(&y) { Some("c17-fmt-literal-trailing-comma".to_string()) } else { None };
+                    Verdict::Bad { what: "synonymous spelling changes the expansion".into(), expected: x, observed: y, sig }
+                }
+            }
+            Outcome::Err(e) => Verdict::Bad { what: "synonymous spelling is rejected".into(), expected: "the same expansion as the base spelling".into(), observed: format!("derive error: {e}"), sig: None },
+            Outcome::Panic(p) => Verdict::Bad {
+                what: "synonymous spelling makes the derive panic".into(),
+                expected: "the same expansion as the base spelling".into(),
+                observed: format!("panic at {}:{}: {}", p.file, p.line, p.msg),
+                sig: None,
+            },
+        };
+    }
+    match ov {
+        Outcome::Err(_) => Verdict::Pass("err"),
+        Outcome::Panic(p) => {
+            if dm::is_deliberate(&p) {
+                Verdict::Pass("deliberate_panic")
+            } else {
+                Verdict::Pass("internal_panic") // rejected, though not gracefully: the business of C18
+            }
+        }
+        Outcome::Ok(ts) => {
+            // defect model of the recorded findings: the expansion is exactly what "the contradiction is
+            // resolved silently" predicts
+            let mut sig = None;
+            if let Some((ptext, model)) = predicted {
+                if let Ok(pi) = syn::parse_str::<syn::DeriveInput>(ptext) {
+                    if let Outcome::Ok(pts) = dm::expand(dv, &pi) {
+                        if norm_ts(&pts) == norm_ts(&ts) {
+                            sig = Some(model.to_string());
+                        }
+                    }
+                }
+            }
+            let same_as_base = norm_ts(&ob) == norm_ts(&ts);
+            Verdict::Bad {
+                what: "corrupted attribute is accepted".into(),
+                expected: "a diagnostic (derive error or deliberate panic)".into(),
+                observed: format!("expands Ok{}: {}", if same_as_base { " (same expansion as without the corruption: silently ignored)" } else { "" }, tok::norm(&ts.to_string()).chars().take(600).collect::<String>()),
+                sig,
+            }
+        }
+    }
+}
+
+// ------------------------------------------------------------------------------------------------
+// E2: the same items through the real proc-macro
+
+const PRELUDE: &str = r#"
+pub static P: i32 = 7;
+#[derive(Debug, Clone)]
+pub struct Inner;
+impl std::fmt::Display for Inner {
+    fn fmt(&self, f: &mut std::fmt::Formatter<'_>) -> std::fmt::Result { f.write_str("inner") }
+}
+impl std::error::Error for Inner {}
+"#;
+
+fn inst_of(c: &Cell, item: &Item) -> &'static str {
+    if item.generics.is_empty() {
+        return "";
+    }
+    match c.fam {
+        Fam::Display if c.derive == "Pointer" => "&'static i32",
+        Fam::Error => "Inner",
+        _ => "i32",
+    }
+}
+
+fn has_attr_named(item: &Item, name: &str) -> bool {
+    let any = |v: &[Attr]| v.iter().any(|a| a.name == name);
+    any(&item.attrs)
+        || match &item.body {
+            Body::Struct(_, fs) | Body::Union(fs) => fs.iter().any(|f| any(&f.attrs)),
+            Body::Enum(vs) => vs.iter().any(|v| any(&v.attrs) || v.fields.iter().any(|f| any(&f.attrs))),
+        }
+}
+
+fn derive_line(c: &Cell, item: &Item) -> String {
+    let mut v: Vec<String> = vec![];
+    match c.fam {
+        Fam::From | Fam::Into | Fam::TryFrom | Fam::Mul => v.push("Debug".into()),
+        Fam::Error => {
+            v.push("Debug".into());
+            v.push("derive_more::Display".into());
+        }
+        _ => {}
+    }
+    match c.derive {
+        "DerefMut" => v.push("derive_more::Deref".into()),
+        "IndexMut" => v.push("derive_more::Index".into()),
+        "Deref" if has_attr_named(item, "deref_mut") => v.push("derive_more::DerefMut".into()),
+        "Index" if has_attr_named(item, "index_mut") => v.push("derive_more::IndexMut".into()),
+        _ => {}
+    }
+    v.push(format!("derive_more::{}", c.derive));
+    format!("#[derive({})]", v.join(", "))
+}
+
+fn tuple_ty(tys: &[String]) -> String {
+    match tys.len() {
+        1 => tys[0].clone(),
+        _ => format!("({})", tys.join(", ")),
+    }
+}
+
+/// explicit flags (`owned`, `ref`, `ref_mut`) of the own attributes in `v`
+fn explicit_flags(v: &[Attr], attr: &str) -> Vec<String> {
+    let mut out = vec![];
+    for a in v.iter().filter(|a| a.name == attr) {
+        for x in a.args() {
+            match x {
+                Arg::Flag(s) | Arg::Call(s, _, _) if ["owned", "ref", "ref_mut"].contains(&s.as_str()) && !out.contains(s) => out.push(s.clone()),
+                _ => {}
+            }
+        }
+    }
+    out
+}
+
+fn is_ignored(v: &[Attr], attr: &str) -> bool {
+    v.iter().any(|a| a.name == attr && (a.has_flag("ignore") || a.has_flag("skip")))
+}
+
+/// Derive-specific probe: the body of `pub fn probe() -> String`. It only uses what the attributes at
+/// `loc` (and their documented defaults) promise, and is pasted verbatim next to both spellings.
+fn probe(c: &Cell, item: &Item, loc: Loc) -> String {
+    let attr = c.attr;
+    let inst = inst_of(c, item);
+    let vals = item.values(inst);
+    let name = &item.name;
+    let mut s = String::from("let mut s = String::new();\n");
+    let mut line = |l: String| {
+        s.push_str("    ");
+        s.push_str(&l);
+        s.push('\n');
+    };
+    let at = item.attrs_ref(loc);
+    match c.fam {
+        Fam::Display => {
+            let spec = match c.derive {
+                "Display" => "{}",
+                "Binary" => "{:b}",
+                "Octal" => "{:o}",
+                "LowerHex" => "{:x}",
+                "UpperHex" => "{:X}",
+                "LowerExp" => "{:e}",
+                "UpperExp" => "{:E}",
+                _ => "{:p}",
+            };
+            for v in &vals {
+                line(format!("s += &format!(\"{spec}|\", {v});"));
+            }
+        }
+        Fam::Debug => {
+            for v in &vals {
+                line(format!("s += &format!(\"{{:?}}|{{:#?}}|\", {v}, {v});"));
+            }
+        }
+        Fam::From => {
+            let (ftys, path): (Vec<String>, String) = match (&item.body, loc) {
+                (Body::Struct(_, fs), _) => (fs.iter().map(|f| f.ty.clone()).collect(), name.clone()),
+                (Body::Enum(vs), Loc::Variant(i)) => (vs[i].fields.iter().map(|f| f.ty.clone()).collect(), name.clone()),
+                _ => (vec![], name.clone()),
+            };
+            let mut srcs: Vec<String> = vec![];
+            for a in at.iter().filter(|a| a.name == attr) {
+                match a.args.as_deref() {
+                    None => srcs.push(tuple_ty(&ftys)),
+                    Some([Arg::Flag(f)]) if f == "forward" => srcs.push(tuple_ty(&ftys)),
+                    Some(args) => srcs.extend(args.iter().filter_map(|x| if let Arg::Ty(t) = x { Some(t.clone()) } else { None })),
+                }
+            }
+            for t in srcs {
+                line(format!("{{ let v: {path} = ({}).into(); s += &format!(\"{{:?}}|\", v); }}", val_of(&t)));
+            }
+        }
+        Fam::Into => {
+            let Body::Struct(_, fs) = &item.body else { return s };
+            let own: String = match loc {
+                Loc::Field(i) => fs[i].ty.clone(),
+                _ => tuple_ty(&fs.iter().filter(|f| !is_ignored(&f.attrs, attr)).map(|f| f.ty.clone()).collect::<Vec<_>>()),
+            };
+            let v = &vals[0];
+            for a in at.iter().filter(|a| a.name == attr) {
+                if is_ignored(std::slice::from_ref(a), attr) {
+                    continue;
+                }
+                let mut owned: Vec<String> = vec![];
+                let mut refs: Vec<String> = vec![];
+                match a.args.as_deref() {
+                    None => owned.push(own.clone()),
+                    Some(args) => {
+                        for x in args {
+                            match x {
+                                Arg::Ty(t) => owned.push(t.clone()),
+                                Arg::Flag(f) if f == "owned" => owned.push(own.clone()),
+                                Arg::Call(h, inner, _) if h == "owned" => owned.extend(inner.iter().cloned()),
+                                Arg::Flag(f) if f == "ref" => refs.push(own.clone()),
+                                Arg::Call(h, inner, _) if h == "ref" => refs.extend(inner.iter().cloned()),
+                                _ => {}
+                            }
+                        }
+                    }
+                }
+                for t in owned {
+                    line(format!("{{ let x: {t} = ({v}).into(); s += &format!(\"{{:?}}|\", x); }}"));
+                }
+                for t in refs.iter().filter(|t| !t.starts_with('(')) {
+                    line(format!("{{ let v = {v}; let x: &{t} = (&v).into(); s += &format!(\"{{:?}}|\", x); }}"));
+                }
+            }
+        }
+        Fam::AsRef => {
+            let Body::Struct(_, fs) = &item.body else { return s };
+            let pool: &[(&str, &[&str])] = if c.derive == "AsMut" { &ASMUT_POOL } else { &ASREF_POOL };
+            let fty = match loc {
+                Loc::Field(i) => fs[i].ty.clone(),
+                _ => fs[0].ty.clone(),
+            };
+            let mut tys: Vec<String> = vec![];
+            for a in at.iter().filter(|a| a.name == attr) {
+                match a.args.as_deref() {
+                    None => tys.push(fty.clone()),
+                    Some([Arg::Flag(f)]) if f == "forward" => tys.push(pool.iter().find(|p| p.0 == fty).map(|p| p.1[0].to_string()).unwrap_or(fty.clone())),
+                    Some(args) => tys.extend(args.iter().filter_map(|x| if let Arg::Ty(t) = x { Some(t.clone()) } else { None })),
+                }
+            }
+            let v = &vals[0];
+            for t in tys {
+                if c.derive == "AsMut" {
+                    line(format!("{{ let mut v = {v}; let r: &mut {t} = AsMut::<{t}>::as_mut(&mut v); s += &format!(\"{{:?}}|\", r); }}"));
+                } else {
+                    line(format!("{{ let v = {v}; let r: &{t} = AsRef::<{t}>::as_ref(&v); s += &format!(\"{{:?}}|\", r); }}"));
+                }
+            }
+        }
+        Fam::TryFrom => {
+            let repr = item.attrs.iter().find(|a| a.name == "repr").and_then(|a| single_flag(a).map(|s| s.to_string())).unwrap_or("isize".into());
+            line(format!("for i in 0..16 {{ s += &format!(\"{{}}|\", {name}::try_from(i as {repr}).is_ok()); }}"));
+        }
+        Fam::Error => {
+            for v in &vals {
+                line(format!("s += &format!(\"{{}}|\", std::error::Error::source(&{v}).is_some());"));
+            }
+        }
+        Fam::Deref => {
+            let v = &vals[0];
+            if c.derive == "DerefMut" {
+                line(format!("{{ let mut v = {v}; let r = &mut *v; s += &format!(\"{{:?}}|\", r); }}"));
+            } else {
+                line(format!("{{ let v = {v}; s += &format!(\"{{:?}}|\", *v); }}"));
+            }
+        }
+        Fam::Index => {
+            let v = &vals[0];
+            if c.derive == "IndexMut" {
+                line(format!("{{ let mut v = {v}; v[0] = 9; s += &format!(\"{{:?}}|\", v[1] + v[0]); }}"));
+            } else {
+                line(format!("{{ let v = {v}; s += &format!(\"{{:?}}|\", v[1]); }}"));
+            }
+        }
+        Fam::IntoIter => {
+            let v = &vals[0];
+            let mut flags = explicit_flags(at, attr);
+            for f in explicit_flags(&item.attrs, attr) {
+                if !flags.contains(&f) {
+                    flags.push(f);
+                }
+            }
+            if flags.is_empty() {
+                flags.push("owned".into());
+            }
+            for f in flags {
+                match f.as_str() {
+                    "owned" => line(format!("{{ let v = {v}; s += &format!(\"{{}}|\", v.into_iter().count()); }}")),
+                    "ref" => line(format!("{{ let v = {v}; s += &format!(\"{{}}|\", (&v).into_iter().count()); }}")),
+                    _ => line(format!("{{ let mut v = {v}; s += &format!(\"{{}}|\", (&mut v).into_iter().count()); }}")),
+                }
+            }
+        }
+        Fam::IsVariant => {
+            let Body::Enum(vs) = &item.body else { return s };
+            for var in vs.iter().filter(|v| !is_ignored(&v.attrs, attr)) {
+                for v in &vals {
+                    line(format!("s += &format!(\"{{}}|\", ({v}).is_{}());", var.snake));
+                }
+            }
+        }
+        Fam::Unwrap | Fam::TryInto => {
+            let Body::Enum(vs) = &item.body else { return s };
+            let any_variant_attr = vs.iter().any(|v| v.attrs.iter().any(|a| a.name == attr));
+            let enum_flags = explicit_flags(&item.attrs, attr);
+            for (i, var) in vs.iter().enumerate() {
+                if is_ignored(&var.attrs, attr) {
+                    continue;
+                }
+                let own = explicit_flags(&var.attrs, attr);
+                let has_own_attr = var.attrs.iter().any(|a| a.name == attr);
+                // only what is explicitly requested for this variant; the all-default case when nothing is written anywhere
+                let mut flags: Vec<String> = own.clone();
+                if c.fam == Fam::Unwrap {
+                    // impl/src/unwrap.rs emits `_ref` / `_mut` only if the *enum-level* attribute requests them too
+                    // (`info.ref_ && state.default_info.ref_`): a variant-level `#[unwrap(ref)]` alone has no effect,
+                    // contrary to unwrap.md. Probe only what works (reported as a side finding).
+                    flags.retain(|f| enum_flags.contains(f));
+                }
+                if !has_own_attr && !any_variant_attr {
+                    flags = enum_flags.clone();
+                    if flags.is_empty() {
+                        flags.push("owned".into());
+                    }
+                } else if !has_own_attr {
+                    continue;
+                }
+                let ftys: Vec<String> = var.fields.iter().map(|f| f.ty.clone()).collect();
+                let v = &vals[i];
+                for f in flags {
+                    match (c.fam, c.derive, f.as_str()) {
+                        (Fam::Unwrap, "Unwrap", "owned") => line(format!("s += &format!(\"{{}}|\", __catch(|| {{ let _ = ({v}).unwrap_{}(); }}).is_ok());", var.snake)),
+                        (Fam::Unwrap, "Unwrap", "ref") => line(format!("s += &format!(\"{{}}|\", __catch(|| {{ let v = {v}; let _ = v.unwrap_{}_ref(); }}).is_ok());", var.snake)),
+                        (Fam::Unwrap, "Unwrap", _) => line(format!("s += &format!(\"{{}}|\", __catch(|| {{ let mut v = {v}; let _ = v.unwrap_{}_mut(); }}).is_ok());", var.snake)),
+                        (Fam::Unwrap, _, "owned") => line(format!("s += &format!(\"{{}}|\", ({v}).try_unwrap_{}().is_ok());", var.snake)),
+                        (Fam::Unwrap, _, "ref") => line(format!("{{ let v = {v}; s += &format!(\"{{}}|\", v.try_unwrap_{}_ref().is_ok()); }}", var.snake)),
+                        (Fam::Unwrap, _, _) => line(format!("{{ let mut v = {v}; s += &format!(\"{{}}|\", v.try_unwrap_{}_mut().is_ok()); }}", var.snake)),
+                        (_, _, "owned") => line(format!("{{ let r: Result<{}, _> = ({v}).try_into(); s += &format!(\"{{}}|\", r.is_ok()); }}", if ftys.is_empty() { "()".to_string() } else { tuple_ty(&ftys) })),
+                        (_, _, "ref") => {
+                            let rt: Vec<String> = ftys.iter().map(|t| format!("&{t}")).collect();
+                            line(format!("{{ let v = {v}; let r: Result<{}, _> = (&v).try_into(); s += &format!(\"{{}}|\", r.is_ok()); }}", if rt.is_empty() { "()".to_string() } else { tuple_ty(&rt) }))
+                        }
+                        _ => {}
+                    }
+                }
+            }
+        }
+        Fam::Mul => {
+            let v = &vals[0];
+            let forward = item.attrs.iter().any(|a| a.name == attr && a.has_flag("forward"));
+            let op = match c.derive.trim_end_matches("Assign") {
+                "Mul" => "*",
+                "Div" => "/",
+                "Rem" => "%",
+                "Shr" => ">>",
+                _ => "<<",
+            };
+            let rhs = if forward { v.clone() } else { "2i32".to_string() };
+            if c.derive.ends_with("Assign") {
+                line(format!("{{ let mut v = {v}; v {op}= {rhs}; s += &format!(\"{{:?}}|\", v); }}"));
+            } else {
+                line(format!("s += &format!(\"{{:?}}|\", ({v}) {op} {rhs});"));
+            }
+        }
+    }
+    s.push_str("    s");
+    s
+}
+
+fn render_e2(c: &Cell, base: &Item, variant: &Item, loc: Loc) -> E2Src {
+    let module = |name: &str, item: &Item, with_probe: bool| -> String {
+        let p = if with_probe { format!("    pub fn probe() -> String {{\n    {}\n    }}\n", probe(c, base, loc)) } else { String::new() };
+        format!("pub mod {name} {{\n    #[allow(unused_imports)] use super::*;\n    {}\n    {}\n{p}}}\n", derive_line(c, item), item.render().replace('\n', "\n    "))
+    };
+    let control = format!("{}pub fn run(o: &mut Out) {{ o.put(\"probe\", &a::probe()); }}", module("a", base, true));
+    let case = if c.kind.is_rewrite() {
+        // the probe is derived from the *base* attributes and pasted next to both spellings
+        format!("{}{}pub fn run(o: &mut Out) {{ o.eq(\"both spellings behave the same\", &a::probe(), &b::probe()); }}", module("a", base, true), module("b", variant, true))
+    } else {
+        module("b", variant, false)
+    };
+    E2Src { control, case }
+}
+
+// ------------------------------------------------------------------------------------------------
+// driver
+
+fn case_json(c: &Case) -> Value {
+    json!({
+        "derive": c.cell.derive, "position": c.cell.pos.name(), "kind": c.cell.kind.name(), "detail": c.detail,
+        "rewrite": c.cell.kind.is_rewrite(), "base": c.base, "variant": c.variant,
+        "predicted": c.predicted.as_ref().map(|(t, m)| json!([t, m])),
+    })
+}
+
+fn e2_spec(name: &str) -> ProgSpec {
+    ProgSpec { name: name.into(), prelude: PRELUDE.into(), crate_attrs: String::new(), nightly: false, check_only: false, shards: 0 }
+}
+
+/// judges one E2 pair (control result, case result); None = fine, Some(Err(())) = generator reject
+fn judge_e2(rewrite: bool, ctrl: &super::proggen::CaseResult, res: &super::proggen::CaseResult) -> Option<Result<(String, String, String), ()>> {
+    if !ctrl.compiled {
+        // a documented helper attribute that rustc does not know is a registration defect of impl/src/lib.rs,
+        // not a generator fault
+        if let Some(e) = ctrl.errors.iter().find(|e| e.message.contains("cannot find attribute")) {
+            return Some(Ok(("documented helper attribute is not registered for the derive".into(), "the well-formed base item compiles".into(), e.rendered.clone())));
+        }
+        return Some(Err(()));
+    }
+    if rewrite {
+        if !res.compiled {
+            return Some(Ok(("the rewritten spelling does not compile with the real proc-macro although the base spelling does".into(), "compiles".into(), res.error_text())));
+        }
+        if res.no_record {
+            return None;
+        }
+        if let Some((w, e, o)) = res.fails.first() {
+            return Some(Ok((format!("run-time probe: {w}"), e.clone(), o.clone())));
+        }
+        if let Some(p) = &res.panicked {
+            return Some(Ok(("probe panicked".into(), "no panic".into(), p.clone())));
+        }
+        None
+    } else {
+        if res.compiled {
+            return Some(Ok(("corrupted attribute is accepted by the real proc-macro".into(), "a compile error reported by the derive".into(), "compiles".into())));
+        }
+        // a diagnostic of the derive itself: rustc reports proc-macro errors without an error code
+        let by_derive = res.errors.iter().any(|e| e.code.is_none() || e.message.contains("proc-macro derive panicked"));
+        if !by_derive {
+            return Some(Ok((
+                "corrupted attribute passes the derive and is only rejected later by rustc".into(),
+                "a diagnostic located in the derive".into(),
+                res.error_text(),
+            )));
+        }
+        None
+    }
+}
+
+pub fn run(ctx: &Ctx) -> Report {
+    let mut rep = Report::new(RULE);
+    rep.evidence.max_samples = 12;
+    rep.evidence.assumptions = vec![
+        "the documented attribute language per derive and position is the one transcribed in DESIGN.md Appendix A from impl/doc/*.md; positions the documentation does not name are out of scope".into(),
+        "token equality is taken after sorting the top-level items of the expansion (impl order is not behaviour)".into(),
+        "a corruption rejected by an internal (non-deliberate) panic counts as rejected here; totality is C18's subject".into(),
+    ];
+    let cells = cells();
+    let (per_cell, rounds) = ctx.tier.pick((100usize, 1u32), (500, 4));
+    let e2_per_cell = ctx.tier.pick(2usize, 4);
+    let dice = proptest::collection::vec(proptest::num::u16::ANY, 160..=160);
+    let mut distinct: Vec<HashSet<u64>> = vec![HashSet::new(); cells.len()];
+    let mut rejects = 0u64;
+    let mut reject_samples: Vec<String> = vec![];
+    let mut misses: BTreeMap<String, u64> = BTreeMap::new();
+    let mut bad: Vec<(Case, String, String, String, Option<String>)> = vec![];
+    let mut e2_pick: Vec<Vec<Case>> = vec![vec![]; cells.len()];
+    for round in 0..rounds {
+        let mut runner = ctx.runner(round);
+        let trees = draw(&mut runner, &dice, cells.len() * per_cell);
+        let cases: Vec<(usize, Option<Case>)> = trees
+            .into_par_iter()
+            .enumerate()
+            .map(|(k, t)| {
+                let ci = k / per_cell;
+                (ci, build_case(&cells[ci], &mut Dice::new(t.current())))
+            })
+            .collect();
+        let verdicts: Vec<Option<Verdict>> = cases
+            .par_iter()
+            .map(|(_, c)| c.as_ref().map(|c| eval_e1(c.cell.derive, c.cell.kind.is_rewrite(), &c.base, &c.variant, c.predicted.as_ref().map(|(t, m)| (t.as_str(), *m)))))
+            .collect();
+        for ((ci, case), verdict) in cases.into_iter().zip(verdicts) {
+            let cell = &cells[ci];
+            let (Some(case), Some(verdict)) = (case, verdict) else {
+                *misses.entry(cell.label()).or_insert(0) += 1;
+                continue;
+            };
+            match verdict {
+                Verdict::GeneratorReject(why) => {
+                    rejects += 1;
+                    rep.evidence.label("generator_reject");
+                    if reject_samples.len() < 5 {
+                        reject_samples.push(format!("{}: {why}", cell.label()));
+                    }
+                    continue;
+                }
+                Verdict::Pass(how) => {
+                    rep.evidence.label(&format!("outcome:{how}"));
+                    if e2_pick[ci].len() < e2_per_cell && case.e2.is_some() && !e2_pick[ci].iter().any(|c| c.variant == case.variant) {
+                        e2_pick[ci].push(case.clone());
+                    }
+                }
+                Verdict::Bad { what, expected, observed, sig } => {
+                    rep.evidence.label("outcome:violation");
+                    bad.push((case.clone(), what, expected, observed, sig));
+                }
+            }
+            rep.evidence.eval(1);
+            let h = hash_str(&format!("{}|{}|{}", cell.derive, case.base, case.variant));
+            if distinct[ci].insert(h) {
+                rep.evidence.nontrivial_hash(h);
+            }
+            rep.evidence.label(&format!("kind:{}", cell.kind.name()));
+            rep.evidence.label(&format!("position:{}", cell.pos.name()));
+            rep.evidence.label(&format!("detail:{}:{}", cell.kind.name(), case.detail));
+            if rep.evidence.evaluations % 1499 == 1 {
+                rep.evidence.sample(case_json(&case));
+            }
+        }
+    }
+    // per-cell distinct counts: the property's non-triviality rule (floor 5)
+    let mut per_cell_counts: BTreeMap<String, u64> = BTreeMap::new();
+    let mut low: Vec<String> = vec![];
+    for (ci, c) in cells.iter().enumerate() {
+        let n = distinct[ci].len() as u64;
+        per_cell_counts.insert(c.label(), n);
+        rep.evidence.label_n(&format!("cell:{}", c.label()), n);
+        if n < 5 {
+            low.push(format!("{}={n} (generator misses {})", c.label(), misses.get(&c.label()).copied().unwrap_or(0)));
+        }
+    }
+    rep.evidence.set("cells", json!(cells.len()));
+    rep.evidence.set("min_distinct_per_cell", json!(per_cell_counts.values().min().copied().unwrap_or(0)));
+    rep.evidence.set("generator_rejects", json!(rejects));
+    rep.evidence.set("generator_reject_samples", json!(reject_samples));
+    rep.evidence.set("generator_miss_cells", json!(misses));
+    rep.evidence.set("generator_misses", json!(misses.values().sum::<u64>()));
+    if !low.is_empty() {
+        rep.infra_errors.push(format!("generator distribution: cells below the floor of 5 distinct cases: {}", low.join("; ")));
+    }
+    let total = rep.evidence.evaluations + rejects;
+    if rejects as f64 > 0.02 * total as f64 {
+        rep.infra_errors.push(format!("generator unsound: {rejects} of {total} base items are not accepted by the derive, e.g. {}", reject_samples.join(" || ")));
+    }
+
+    // E1 violations: known defect models are all recorded; anything else once per (cell, detail), smallest first
+    bad.sort_by_key(|b| b.0.variant.len() + b.0.base.len());
+    let mut reported = HashSet::new();
+    for (case, what, expected, observed, sig) in bad {
+        let known = sig.as_ref().is_some_and(|s| ctx.is_known(s));
+        let key = format!("{}|{}|{:?}", case.cell.label(), case.detail, sig);
+        if !known && !reported.insert(key) {
+            continue;
+        }
+        rep.violations.push(Violation {
+            sig,
+            summary: format!("{} [{} / {} / {} / {}]: `{}`", what, case.cell.derive, case.cell.pos.name(), case.cell.kind.name(), case.detail, tok::norm(&case.variant)),
+            case: case_json(&case),
+            expected,
+            observed,
+        });
+    }
+
+    // E2 sample
+    let sample: Vec<Case> = e2_pick.into_iter().flatten().collect();
+    let mut srcs: Vec<CaseSrc> = vec![];
+    for c in &sample {
+        let e = c.e2.as_ref().unwrap();
+        let rw = c.cell.kind.is_rewrite();
+        srcs.push(CaseSrc { body: e.control.clone(), runnable: true, negative: false });
+        srcs.push(CaseSrc { body: e.case.clone(), runnable: rw, negative: !rw });
+    }
+    match build_and_run(ctx, &e2_spec("gen_c17"), &srcs) {
+        Err(e) => rep.infra_errors.push(format!("E2: {e}")),
+        Ok(built) => {
+            rep.infra_errors.extend(built.infra.clone());
+            rep.evidence.set("e2_builds", json!(built.builds));
+            let mut e2_rejects = 0u64;
+            let mut e2_reject_sample = String::new();
+            let mut seen = HashSet::new();
+            for (i, c) in sample.iter().enumerate() {
+                let (ctrl, res) = (&built.results[2 * i], &built.results[2 * i + 1]);
+                let rw = c.cell.kind.is_rewrite();
+                rep.evidence.label(if rw { "e2:positive_pairs" } else { "e2:negative_cases" });
+                match judge_e2(rw, ctrl, res) {
+                    None => {}
+                    Some(Err(())) => {
+                        e2_rejects += 1;
+                        rep.evidence.label("e2:generator_reject");
+                        if e2_reject_sample.len() < 6000 {
+                            e2_reject_sample += &format!("{}: {}\n{}\n", c.cell.label(), ctrl.error_text(), c.e2.as_ref().unwrap().control);
+                        }
+                    }
+                    Some(Ok((what, expected, observed))) => {
+                        if !seen.insert(format!("{}|{}|{what}", c.cell.label(), c.detail)) {
+                            continue;
+                        }
+                        let e = c.e2.as_ref().unwrap();
+                        rep.violations.push(Violation {
+                            sig: None,
+                            summary: format!("E2 {} [{} / {} / {} / {}]: `{}`", what, c.cell.derive, c.cell.pos.name(), c.cell.kind.name(), c.detail, tok::norm(&c.variant)),
+                            case: json!({"e2": {"rewrite": rw, "control": e.control, "case": e.case}, "derive": c.cell.derive}),
+                            expected,
+                            observed,
+                        });
+                    }
+                }
+            }
+            rep.evidence.set("e2_cases", json!(sample.len()));
+            rep.evidence.set("e2_generator_rejects", json!(e2_rejects));
+            rep.evidence.set("e2_reject_sample", json!(e2_reject_sample));
+            if e2_rejects as f64 > 0.02 * sample.len().max(1) as f64 {
+                rep.infra_errors.push(format!("E2 generator unsound: {e2_rejects} of {} control programs do not compile, e.g. {e2_reject_sample}", sample.len()));
+            }
+        }
+    }
+    rep.evidence.exhaustive = Some(false);
+    rep.evidence.explanation = format!("{} (derive, position, kind) cells x {} seeded draws x {} round(s); {} E2 programs per cell", cells.len(), per_cell, rounds, e2_per_cell);
     rep
 }
 
-pub fn replay(_ctx: &Ctx, _case: &Value) -> Report {
-    Report::new("stub")
+pub fn replay(ctx: &Ctx, case: &Value) -> Report {
+    let mut rep = Report::new(RULE);
+    rep.evidence.eval(1);
+    if let Some(list) = case["probe"].as_array() {
+        // development aid: {"probe": [[derive, item], ..]} prints the in-process outcome of each item
+        for p in list {
+            let (Some(dn), Some(item)) = (p[0].as_str(), p[1].as_str()) else { continue };
+            let out = Derive::by_name(dn).map(|d| dm::expand_src(d, item));
+            match out {
+                Some(Ok(Outcome::Ok(ts))) => println!("PROBE {dn} | {item}\n   -> Ok {}", norm_ts(&ts)),
+                Some(Ok(Outcome::Err(e))) => println!("PROBE {dn} | {item}\n   -> Err {e}"),
+                Some(Ok(Outcome::Panic(p))) => println!("PROBE {dn} | {item}\n   -> Panic(deliberate={}) {}:{} {}", dm::is_deliberate(&p), p.file, p.line, p.msg),
+                Some(Err(e)) => println!("PROBE {dn} | {item}\n   -> unparsable {e}"),
+                None => println!("PROBE unknown derive {dn}"),
+            }
+        }
+        return rep;
+    }
+    if let Some(filter) = case["dump"].as_str() {
+        // development aid: {"dump": "<substring of a cell label>"} prints three generated cases per matching cell
+        let mut runner = ctx.runner(0);
+        let dice = proptest::collection::vec(proptest::num::u16::ANY, 160..=160);
+        for c in cells().iter().filter(|c| c.label().contains(filter)) {
+            let mut shown = 0;
+            for t in draw(&mut runner, &dice, 40) {
+                if shown >= 3 {
+                    break;
+                }
+                if let Some(k) = build_case(c, &mut Dice::new(t.current())) {
+                    shown += 1;
+                    let v = eval_e1(c.derive, c.kind.is_rewrite(), &k.base, &k.variant, k.predicted.as_ref().map(|(t, m)| (t.as_str(), *m)));
+                    let vs = match v {
+                        Verdict::Pass(h) => format!("pass:{h}"),
+                        Verdict::GeneratorReject(e) => format!("REJECT {e}"),
+                        Verdict::Bad { what, sig, .. } => format!("BAD {what} sig={sig:?}"),
+                    };
+                    println!("DUMP {} [{}] {vs}\n   base:    {}\n   variant: {}", c.label(), k.detail, tok::norm(&k.base), tok::norm(&k.variant));
+                }
+            }
+        }
+        return rep;
+    }
+    if case["e2"].is_object() {
+        let e = &case["e2"];
+        let rw = e["rewrite"].as_bool().unwrap_or(false);
+        let srcs = vec![
+            CaseSrc { body: e["control"].as_str().unwrap_or("").to_string(), runnable: true, negative: false },
+            CaseSrc { body: e["case"].as_str().unwrap_or("").to_string(), runnable: rw, negative: !rw },
+        ];
+        match build_and_run(ctx, &e2_spec("gen_c17_replay"), &srcs) {
+            Err(e) => rep.infra_errors.push(e),
+            Ok(b) => match judge_e2(rw, &b.results[0], &b.results[1]) {
+                None => {}
+                Some(Err(())) => rep.infra_errors.push(format!("control program does not compile: {}", b.results[0].error_text())),
+                Some(Ok((what, expected, observed))) => rep.violations.push(Violation { sig: None, summary: format!("E2 {what}"), case: case.clone(), expected, observed }),
+            },
+        }
+        return rep;
+    }
+    let (Some(derive), Some(base), Some(variant)) = (case["derive"].as_str(), case["base"].as_str(), case["variant"].as_str()) else {
+        rep.infra_errors.push("replay case needs derive, base, variant".into());
+        return rep;
+    };
+    let rewrite = case["rewrite"].as_bool().unwrap_or(false);
+    let pred = case["predicted"].as_array().and_then(|a| Some((a.first()?.as_str()?, a.get(1)?.as_str()?)));
+    match eval_e1(derive, rewrite, base, variant, pred) {
+        Verdict::Pass(_) => {}
+        Verdict::GeneratorReject(e) => rep.infra_errors.push(format!("not a case of the domain: {e}")),
+        Verdict::Bad { what, expected, observed, sig } => rep.violations.push(Violation { sig, summary: format!("{what}: `{}`", tok::norm(variant)), case: case.clone(), expected, observed }),
+    }
+    rep
 }
